@@ -29,200 +29,1044 @@ def close(a, b, tol=1e-9):
     return abs(a - b) <= tol * max(abs(a), abs(b), 1e-12) + 1e-12
 
 
+def ff(s):
+    """rational string -> float"""
+    return float(Fraction(s))
+
+
+SECONDS = {"sec": 1, "min": 60, "hour": 3600, "day": 86400}
+SUFFIX = {"sec": ["s", "sec", "secs"], "min": ["m", "min", "mins"], "hour": ["h", "hour", "hours"], "day": ["d", "day", "days"]}
+# value_format arguments: strings that format ints and floats alike, and callables (named, so that cases stay JSON)
+VALUE_FORMATS = {"f2": ".2f", "g3": ".3g", "e1": ".1e", "w9": "9.3f"}
+CALLABLE_FORMATS = {"brackets": lambda x: "<%g>" % x, "unit": lambda x: "%.1f u" % x}
+# x / y transformations of a 2-D map (functions of both bin coordinates)
+TRANSFORMS = {
+    "shear": (lambda x, y: 2 * x + y, lambda x, y: y - x),
+    "x_only": (lambda x, y: 3 * x, None),
+    "y_only": (None, lambda x, y: y + 0.5 * x),
+    "polar_xy": (lambda r, phi: r * np.cos(phi), lambda r, phi: r * np.sin(phi)),
+}
+SURFACE_Z = {"zero": None, "plane": lambda x, y: x + 0.5 * y}
+KINDS = (["mpl1"] * 5 + ["plotly1"] * 2 + ["ascii", "ascii_map"] + ["mpl2"] * 4 + ["polar"] * 2 + ["mpl3d"] * 2
+         + ["pair", "collection"] + ["ticks"] * 4 + ["refuse"] * 2 + ["backend"] + ["data"] * 2)
+BAD_1D = ["map", "image", "bar3d", "polar_map", "nokind", "nobackend", "bokeh", "plotly_map", "ascii_map",
+          "errors_cumulative_bar", "errors_cumulative_line", "errors_cumulative_scatter"]
+BAD_2D = ["bar", "line", "step", "scatter", "fill", "hbar", "plotly_bar", "nokind", "nobackend", "bokeh"]
+
+
+def value_formatter(spec):
+    """the python object behind a value_format spec of a case, and the function the labels must show"""
+    if spec is None:
+        return None, None
+    k, name = spec.split(":")
+    if k == "s":
+        s = VALUE_FORMATS[name]
+        return s, (lambda v: format(v, s))
+    if k == "c":
+        return CALLABLE_FORMATS[name], CALLABLE_FORMATS[name]
+    return {"int": 5, "list": [".2f"]}[name], None
+
+
+def label_ok(text, fmt, v):
+    """does a value label show v?  (v may differ from the plotted number in the last bits)"""
+    v = float(v)
+    if fmt is None:
+        try:
+            return close(float(text), v)
+        except ValueError:
+            return False
+    return any(text == fmt(x) for x in (v, v * (1 + 1e-12), v * (1 - 1e-12)))
+
+
+_LUT = {}
+
+
+def cmap_pos(rgba, name):
+    """position (0..255) of a face colour in the colour map's own table: the colour map's ordering"""
+    import matplotlib.pyplot as plt
+    if name not in _LUT:
+        _LUT[name] = np.asarray(plt.get_cmap(name)(np.linspace(0, 1, 256)))[:, :3]
+    d = ((_LUT[name] - np.asarray(rgba[:3], dtype=float)) ** 2).sum(axis=1)
+    return int(np.argmin(d))
+
+
+def monotone(vals, pos):
+    """pos is weakly monotone (one direction) in vals; values equal up to rounding are not compared"""
+    order = sorted(range(len(vals)), key=lambda i: vals[i])
+    diffs = []
+    for a in range(len(order)):
+        for b in range(a + 1, len(order)):
+            i, j = order[a], order[b]
+            if not close(vals[i], vals[j], 1e-9):
+                diffs.append(pos[j] - pos[i])
+    return (not diffs) or all(x <= 1e-9 for x in diffs) or all(x >= -1e-9 for x in diffs)
+
+
+def multiples_inside(lo, hi, w):
+    return [k * w for k in range(math.ceil(lo / w - 1e-12) - 1, math.floor(hi / w + 1e-12) + 2) if lo <= k * w <= hi]
+
+
+def spell_level(rng, name, n):
+    """one of the accepted string spellings of (name, n)"""
+    suffix = rng.choice(SUFFIX[name])
+    if n == 1 and rng.random() < 0.5:
+        return suffix
+    return (str(int(n)) if float(n).is_integer() else repr(float(n))) + suffix
+
+
+def partition(rng, total, kmax=4):
+    """rising edges 0 .. total"""
+    k = rng.randint(1, kmax)
+    if rng.random() < 0.5:
+        cuts = [i / k for i in range(k + 1)]
+    else:
+        inner = sorted(rng.sample([0.125, 0.25, 0.375, 0.5, 0.625, 0.75, 0.875], k - 1))
+        cuts = [0.0] + inner + [1.0]
+    e = [c * total for c in cuts]
+    return [[e[i], e[i + 1]] for i in range(k)]
+
+
+def same_points(got, want, tol=1e-6):
+    """the same points in any order"""
+    left = list(got)
+    for w in want:
+        hit = [g for g in left if all(abs(a - b) <= 1e-9 + tol * abs(b) for a, b in zip(g, w))]
+        if not hit:
+            return False
+        left.remove(hit[0])
+    return not left
+
+
+def enc_pairs(pairs):
+    return [[rs(l), rs(r)] for l, r in pairs]
+
+
 class C20:
     ID = "C20"
-    N_QUICK = 150
+    N_QUICK = 220
     N_THOROUGH = 2500
     N_SEARCH = 150
     RULE = ("1-D histograms (irregular / gapped bins, zeros, int and float contents, custom errors, name / title / axis name) x "
-            "matplotlib bar / step / line / scatter / fill with density / cumulative / errors / show_values / explicit title and "
-            "labels, plotly bar / line / scatter, ASCII hbar (show_values); 2-D histograms x matplotlib map (show_zero, "
-            "show_values, density) and image (regular bins), plotly map; wrong dimension, unknown kind / backend; the time-tick "
-            "helper on ranges with negative / non-multiple limits for sec / min / hour units and edge / centre levels. Marks are "
-            "read back from the artists (patches, lines, collections, images, texts, title, labels), traces and captured stdout; "
-            "the histogram is snapshotted before and after. non-trivial = non-zero contents; distinct = case hash")
-    EXTRA_TRUST = ["matplotlib / plotly rendering, colour-map tables and layout are outside the model"]
+            "matplotlib bar / step / line / scatter / fill with density / cumulative (also both) / errors / show_values with a "
+            "value_format string or callable / show_stats / log scales / lw / alpha / ticks at centres or edges / xlim, ylim / a "
+            "time tick handler / explicit title and labels, called as plot(kind), plot() or plot.kind(); pair_bars; histogram "
+            "collections; plotly bar / line / scatter (ticks); ASCII hbar and 2-D map; 2-D histograms x matplotlib map (show_zero, "
+            "show_values, value_format, density, colour map, log / custom normalisation, grid colour, transformed coordinates), "
+            "image (interpolation), bar3d, surface_map, plotly map; polar / spherical / cylindrical histograms x polar_map, "
+            "transformed map, globe_map, cylinder_map; wrong dimension, unknown kind / backend, errors with cumulative; "
+            "set_default_backend round trips; get_data / get_err_data / get_value_format directly; the time-tick helper on ranges "
+            "with negative / non-multiple limits for sec / min / hour / day units in every accepted spelling, edge / centre levels "
+            "and the automatic level. Marks are read back from the artists (patches, lines, collections, images, texts, title, "
+            "labels, ticks), traces and captured stdout; the histogram is snapshotted before and after. "
+            "non-trivial = non-zero contents; distinct = case hash")
+    EXTRA_TRUST = ["matplotlib / plotly rendering, colour-map tables and layout are outside the model",
+                   "the ASCII map's colours are read at the call of xtermcolor.colorize (replaced by a recorder while the map is printed)"]
     ASSUMPTIONS = ["plot functions are pure in the model: 'plotting never modifies the histogram' is checked by snapshots only"]
 
+    # ------------------------------------------------------------------ generators
     def gen_case(self, rng, k, tier):
-        kind = rng.choice(["mpl1", "mpl1", "mpl1", "plotly1", "ascii", "mpl2", "mpl2", "ticks", "refuse"])
-        if kind in ("mpl1", "plotly1", "ascii", "refuse"):
+        kind = rng.choice(KINDS)
+        c = getattr(self, "_gen_" + kind)(rng)
+        c["tags"] = [t for t in dict.fromkeys(c["tags"])]
+        return c
+
+    def _opt1(self, rng, kind, pairs, t, init):
+        opt = {"plot": rng.choice(["bar", "step", "line", "scatter", "fill"]) if kind == "mpl1" else rng.choice(["bar", "line", "scatter"]),
+               "density": rng.random() < 0.35, "cumulative": rng.random() < 0.35, "errors": rng.random() < 0.4,
+               "show_values": rng.random() < 0.35,
+               "name": rng.choice([None, "hname"]), "title": rng.choice([None, "The title"]), "axis_name": rng.choice([None, "energy"]),
+               "title_arg": rng.choice([None, None, "override"]), "xlabel_arg": rng.choice([None, None, "xl"]),
+               "ylabel_arg": rng.choice([None, None, "yl"]),
+               "width": rng.choice([10, 40, 80]), "bad": rng.choice(BAD_1D)}
+        if opt["cumulative"]:
+            opt["errors"] = False          # refused together: exercised by the bad:errors_cumulative_* calls
+            if opt["density"] and all(x == "0" for x in init["freq"]):
+                init["freq"][0] = "3"      # the normalised cumulative curve of an empty histogram is undefined
+        if t["gapped"] and opt["plot"] == "step":
+            opt["plot"] = "bar"
+        return opt
+
+    def _gen_mpl1(self, rng):
+        pairs, t = gen1.rising_bins(rng)
+        handler = None
+        if rng.random() < 0.15:
+            # a time axis (seconds) for the tick handler
+            name, n = rng.choice([("sec", 1), ("sec", 0.5), ("sec", 5), ("min", 1)])
+            w = n * SECONDS[name]
+            e = [rng.choice([-3, 0, 2, 7]) * w + rng.choice([0, 0.25 * w])]
+            for _ in range(rng.randint(1, 5)):
+                e.append(e[-1] + rng.choice([0.5, 1.0, 2.5]) * w)
+            pairs, t = [[e[i], e[i + 1]] for i in range(len(e) - 1)], {"gapped": False, "tiny_gap": False}
+            form = rng.choice(["tuple", "str", "auto"])
+            handler = {"unit": [name, n], "form": form, "text": spell_level(rng, name, n) if form == "str" else None}
+        init = rand_hist_op(rng, pairs)
+        init["keep"] = True
+        if rng.random() < 0.5:
+            init["dtype"] = "float64"
+        opt = self._opt1(rng, "mpl1", pairs, t, init)
+        p = opt["plot"]
+        opt["call"] = rng.choice(["plot", "plot", "proxy", "kind_none"])
+        opt["value_format"] = None
+        if opt["show_values"] and p != "fill" and rng.random() < 0.6:
+            opt["value_format"] = rng.choice(["s:" + k for k in VALUE_FORMATS] + ["c:" + k for k in CALLABLE_FORMATS])
+        opt["show_stats"] = rng.choice([False, False, True, "total"])
+        positive = any(x != "0" for x in init["freq"])
+        opt["yscale"] = "log" if positive and rng.random() < 0.15 else None
+        opt["xscale"] = "log" if pairs[0][0] > 0 and rng.random() < 0.3 else None
+        opt["lw"] = rng.choice([None, None, 2, 0.5])
+        opt["alpha"] = rng.choice([None, None, 0.5])
+        opt["ticks"] = rng.choice([None, None, "center", "edge"]) if handler is None else None
+        opt["tick_handler"] = handler
+        opt["xlim"] = rng.choice([None, None, "auto", "keep", [pairs[0][0] - 1, pairs[-1][1] + 1]]) if handler is None else None
+        opt["ylim"] = rng.choice([None, None, "auto", "keep", [0, 20]])
+        # (explicit limits reaching 0 or below cannot be shown on a logarithmic axis: matplotlib's business, not the property's)
+        if opt["yscale"] and isinstance(opt["ylim"], list):
+            opt["ylim"] = "auto"
+        if opt["xscale"] and isinstance(opt["xlim"], list):
+            opt["xlim"] = "auto"
+        tags = ["mpl1", "plot:" + p, "call:" + opt["call"]]
+        tags += ["opt:" + k for k in ("density", "cumulative", "errors", "show_values", "show_stats", "xscale", "yscale", "lw", "alpha")
+                 if opt[k]]
+        if opt["density"] and opt["cumulative"]:
+            tags.append("opt:cumulative_density")
+        if opt["value_format"]:
+            tags.append("opt:value_format_" + ("string" if opt["value_format"][0] == "s" else "callable"))
+        if opt["ticks"]:
+            tags.append("opt:ticks_" + opt["ticks"])
+        if handler:
+            tags.append("opt:tick_handler_" + handler["form"])
+        for k in ("xlim", "ylim"):
+            if opt[k]:
+                tags.append(f"opt:{k}_" + (opt[k] if isinstance(opt[k], str) else "tuple"))
+        tags.append("bad:" + opt["bad"])
+        return {"kind": "mpl1", "init": init, "opt": opt, "tags": tags}
+
+    def _gen_plotly1(self, rng):
+        pairs, t = gen1.rising_bins(rng)
+        init = rand_hist_op(rng, pairs)
+        init["keep"] = True
+        if rng.random() < 0.5:
+            init["dtype"] = "float64"
+        opt = self._opt1(rng, "plotly1", pairs, t, init)
+        opt["call"] = rng.choice(["plot", "plot", "proxy", "kind_none"])
+        # (plotly's bar hands unknown keywords to go.Bar before the ticks are taken out: ticks are asked of line / scatter only)
+        opt["ticks"] = rng.choice([None, "center", "edge"]) if opt["plot"] != "bar" and opt["call"] != "kind_none" else None
+        opt["tick_handler"] = None
+        if opt["plot"] != "bar" and opt["call"] != "kind_none" and not opt["ticks"] and rng.random() < 0.4:
+            name, n = rng.choice([("sec", 1), ("sec", 0.5), ("sec", 2)])
+            form = rng.choice(["tuple", "str"])
+            opt["tick_handler"] = {"unit": [name, n], "form": form, "text": spell_level(rng, name, n) if form == "str" else None}
+        tags = ["plotly1", "plot:" + opt["plot"], "call:" + opt["call"], "bad:" + opt["bad"]]
+        if opt["tick_handler"]:
+            tags.append("opt:tick_handler_" + opt["tick_handler"]["form"])
+        if opt["density"] and opt["cumulative"]:
+            tags.append("opt:cumulative_density")
+        if opt["ticks"]:
+            tags.append("opt:ticks_" + opt["ticks"])
+        return {"kind": "plotly1", "init": init, "opt": opt, "tags": tags}
+
+    def _gen_ascii(self, rng):
+        pairs, t = gen1.rising_bins(rng)
+        init = rand_hist_op(rng, pairs)
+        init["keep"] = True
+        if all(x == "0" for x in init["freq"]):
+            init["freq"][0] = "3"
+        if rng.random() < 0.5:
+            init["dtype"] = "float64"
+        opt = self._opt1(rng, "ascii", pairs, t, init)
+        opt["plot"] = "hbar"
+        opt["call"] = rng.choice(["plot", "proxy", "kind_none"])
+        return {"kind": "ascii", "init": init, "opt": opt, "tags": ["ascii", "plot:hbar", "call:" + opt["call"], "bad:" + opt["bad"]]}
+
+    def _gen_refuse(self, rng):
+        if rng.random() < 0.5:
             pairs, t = gen1.rising_bins(rng)
             init = rand_hist_op(rng, pairs)
             init["keep"] = True
-            if kind == "ascii" and all(x == "0" for x in init["freq"]):
-                init["freq"][0] = "3"
-            if rng.random() < 0.5:
-                init["dtype"] = "float64"
-            opt = {"plot": rng.choice(["bar", "step", "line", "scatter", "fill"]) if kind == "mpl1" else rng.choice(["bar", "line", "scatter"]),
-                   "density": rng.random() < 0.3, "cumulative": False, "errors": rng.random() < 0.4, "show_values": rng.random() < 0.3,
-                   "name": rng.choice([None, "hname"]), "title": rng.choice([None, "The title"]), "axis_name": rng.choice([None, "energy"]),
-                   "title_arg": rng.choice([None, None, "override"]), "xlabel_arg": rng.choice([None, None, "xl"]),
-                   "width": rng.choice([10, 40, 80]), "bad": rng.choice(["map", "image", "nokind", "nobackend", "bar3d"])}
-            if not opt["density"] and rng.random() < 0.3:
-                opt["cumulative"] = True
-                opt["errors"] = False
-            if t["gapped"] and opt["plot"] == "step":
-                opt["plot"] = "bar"
-            return {"kind": kind, "init": init, "opt": opt, "tags": [kind, "plot:" + opt["plot"]]}
-        if kind == "mpl2":
-            init, axes = rand_nd_op(rng, d=2, names=True)
-            opt = {"plot": rng.choice(["map", "map", "image", "plotly_map"]), "density": rng.random() < 0.3, "show_zero": rng.random() < 0.6,
-                   "show_values": rng.random() < 0.4, "bad": rng.choice(["bar", "line", "step", "hbar"])}
-            if opt["plot"] == "image":
-                w1, w2 = rng.choice([1.0, 0.5]), rng.choice([1.0, 2.0])
-                n1, n2 = rng.randint(1, 4), rng.randint(1, 3)
-                init["axes"] = [gen1.binning_json([[i * w1, (i + 1) * w1] for i in range(n1)], form="static_obj"),
-                                gen1.binning_json([[i * w2 - 1, (i + 1) * w2 - 1] for i in range(n2)], form="static_obj")]
-                init["freq"] = [rs(rng.randint(0, 9)) for _ in range(n1 * n2)]
-                init["err2"] = None
-            return {"kind": "mpl2", "init": init, "opt": opt, "tags": ["mpl2", "plot:" + opt["plot"]]}
-        unit = rng.choice([("sec", 1), ("sec", 5), ("sec", 0.5), ("min", 1), ("min", 15), ("hour", 1), ("hour", 6)])
-        w = unit[1] * {"sec": 1, "min": 60, "hour": 3600}[unit[0]]
+            opt = self._opt1(rng, "refuse", pairs, t, init)
+            return {"kind": "refuse", "init": init, "opt": opt, "tags": ["refuse", "dim:1", "bad:" + opt["bad"]]}
+        init, axes = rand_nd_op(rng, d=2, names=True)
+        opt = {"bad": rng.choice(BAD_2D)}
+        return {"kind": "refuse2", "init": init, "opt": opt, "tags": ["refuse", "dim:2", "bad:" + opt["bad"]]}
+
+    def _gen_ascii_map(self, rng):
+        init, axes = rand_nd_op(rng, d=2, names=True)
+        if all(x == "0" for x in init["freq"]):
+            init["freq"][0] = "2"
+        opt = {"plot": "ascii_map", "cmap": rng.choice([None, "Greys", "Greys_r"]), "value_format": rng.choice([None, ".1f"]),
+               "bad": rng.choice(BAD_2D)}
+        return {"kind": "ascii_map", "init": init, "opt": opt, "tags": ["ascii_map", "plot:ascii_map", "bad:" + opt["bad"]]}
+
+    def _gen_mpl2(self, rng):
+        init, axes = rand_nd_op(rng, d=2, names=True)
+        opt = {"plot": rng.choice(["map", "map", "map", "image", "plotly_map"]), "density": rng.random() < 0.3, "show_zero": rng.random() < 0.6,
+               "show_values": rng.random() < 0.4, "bad": rng.choice(BAD_2D),
+               "title": rng.choice([None, "Map title"]),
+               "title_arg": rng.choice([None, None, "override"]), "xlabel_arg": rng.choice([None, None, "xl"]),
+               "ylabel_arg": rng.choice([None, None, "yl"])}
+        tags = ["mpl2", "plot:" + opt["plot"]]
+        if opt["plot"] == "image":
+            w1, w2 = rng.choice([1.0, 0.5]), rng.choice([1.0, 2.0])
+            n1, n2 = rng.randint(1, 4), rng.randint(1, 3)
+            init["axes"] = [gen1.binning_json([[i * w1, (i + 1) * w1] for i in range(n1)], form="static_obj"),
+                            gen1.binning_json([[i * w2 - 1, (i + 1) * w2 - 1] for i in range(n2)], form="static_obj")]
+            init["freq"] = [rs(rng.randint(0, 9)) for _ in range(n1 * n2)]
+            init["err2"] = None
+            opt["interpolation"] = rng.choice([None, "nearest", "bilinear"])
+            if opt["interpolation"]:
+                tags.append("opt:interpolation")
+        if opt["plot"] == "map":
+            opt["value_format"] = None
+            if opt["show_values"] and rng.random() < 0.6:
+                opt["value_format"] = rng.choice(["s:" + k for k in VALUE_FORMATS] + ["c:" + k for k in CALLABLE_FORMATS])
+            opt["cmap"] = rng.choice([None, None, "viridis", "Greys_r"])
+            opt["cmap_normalize"] = "log" if rng.random() < 0.2 else None
+            # (limits that cannot cross whatever the data are: vmin > vmax is an error of matplotlib's, not a subject of the property)
+            opt["cmap_min"], opt["cmap_max"] = rng.choice([(None, None), (None, None), ("min", None), (None, 3.0), (None, 100.0), (0.5, 1e15)])
+            if opt["cmap_normalize"] == "log":
+                opt["cmap_min"] = opt["cmap_max"] = None
+                opt["show_zero"] = False   # log(0) has no colour (and matplotlib rejects the masked alpha physt passes on for it)
+            opt["grid_color"] = rng.choice([None, "red"])
+            opt["alpha"] = rng.choice([None, None, 0.5])
+            opt["transform"] = rng.choice([None, None, None, "shear", "x_only", "y_only"])
+            opt["show_colorbar"] = rng.random() < 0.15
+            if opt["cmap_normalize"] == "log" and all(x == "0" for x in init["freq"]):
+                init["freq"][0] = "2"
+            tags += ["opt:" + k for k in ("density", "show_zero", "show_values", "cmap", "cmap_normalize", "cmap_min", "cmap_max",
+                                          "grid_color", "alpha", "transform", "show_colorbar") if opt[k]]
+            if opt["value_format"]:
+                tags.append("opt:value_format_" + ("string" if opt["value_format"][0] == "s" else "callable"))
+        tags += ["opt:" + k for k in ("title_arg", "xlabel_arg", "ylabel_arg") if opt[k] and opt["plot"] != "plotly_map"]
+        tags.append("bad:" + opt["bad"])
+        return {"kind": "mpl2", "init": init, "opt": opt, "tags": tags}
+
+    def _special(self, rng, hist):
+        if hist == "polar":
+            e = [rng.choice([0.0, 0.5, 1.0])]
+            for _ in range(rng.randint(1, 3)):
+                e.append(e[-1] + rng.choice([0.5, 1.0, 1.5]))
+            b0 = [[e[i], e[i + 1]] for i in range(len(e) - 1)]
+            if len(b0) == 3 and rng.random() < 0.3:
+                del b0[1]
+            b1 = partition(rng, 2 * math.pi)
+        elif hist == "spherical":
+            b0, b1 = partition(rng, math.pi, 3), partition(rng, 2 * math.pi, 3)
+        else:
+            b0 = partition(rng, 2 * math.pi, 3)
+            zp, _ = gen1.rising_bins(rng, allow_gaps=False)
+            b1 = zp[:3]
+        isint = rng.random() < 0.5
+        f = [rng.choice([0, 0, 1, 2, 3, 5, 8]) if isint else rng.choice([0, 0.5, 1.25, 2, 4.75]) for _ in range(len(b0) * len(b1))]
+        c = {"hist": hist, "b0": enc_pairs(b0), "b1": enc_pairs(b1), "freq": [rs(x) for x in f], "dtype": "int64" if isint else "float64"}
+        if hist == "cylinder":
+            c["radius"] = rng.choice([1.0, 2.0, 0.5])
+        return c
+
+    def _gen_polar(self, rng):
+        c = self._special(rng, "polar")
+        opt = {"plot": rng.choice(["polar_map", "polar_map", "map_xy"]), "density": rng.random() < 0.4, "show_zero": rng.random() < 0.6,
+               "cmap": rng.choice([None, "viridis"]), "grid_color": rng.choice([None, "red"]), "call": rng.choice(["plot", "proxy"]),
+               "bad": rng.choice(BAD_2D)}
+        c.update({"kind": "polar", "opt": opt,
+                  "tags": ["polar", "plot:" + opt["plot"], "hist:polar", "bad:" + opt["bad"]] + ["opt:" + k for k in ("density", "show_zero", "cmap") if opt[k]]})
+        if opt["plot"] == "map_xy":
+            c["tags"].append("opt:transform")
+        return c
+
+    def _gen_mpl3d(self, rng):
+        p = rng.choice(["bar3d", "bar3d", "surface_map", "globe_map", "cylinder_map"])
+        opt = {"plot": p, "density": rng.random() < 0.4, "show_zero": rng.random() < 0.6, "bad": rng.choice(BAD_2D),
+               "title_arg": rng.choice([None, "override"]), "xlabel_arg": rng.choice([None, "xl"]), "ylabel_arg": rng.choice([None, "yl"])}
+        tags = ["mpl3d", "plot:" + p, "bad:" + opt["bad"]] + ["opt:" + k for k in ("density", "show_zero") if opt[k]]
+        if p in ("globe_map", "cylinder_map"):
+            c = self._special(rng, "spherical" if p == "globe_map" else "cylinder")
+            c.update({"kind": "mpl3d", "opt": opt, "tags": tags + ["hist:" + c["hist"]]})
+            return c
+        axes = [gen1.rising_bins(rng, allow_gaps=(p == "bar3d"))[0][:3] for _ in range(2)]
+        size = len(axes[0]) * len(axes[1])
+        isint = rng.random() < 0.5
+        f = [rng.choice([0, 0, 1, 2, 3, 5, 8]) if isint else rng.choice([0, 0.5, 1.25, 2, 4.75]) for _ in range(size)]
+        init = {"op": "of_arrays", "out": 0, "axes": [gen1.binning_json(a, form="static_obj") for a in axes], "freq": [rs(x) for x in f],
+                "err2": None, "missed": "0", "dtype": "int64" if isint else "float64",
+                "names": rng.choice([None, ["u", "v"]]), "keep": True}
+        if p == "surface_map":
+            opt["z"] = rng.choice(["zero", "plane"])
+            opt["transform"] = rng.choice([None, "shear"])
+            tags += ["opt:z_" + opt["z"]] + (["opt:transform"] if opt["transform"] else [])
+        return {"kind": "mpl3d", "init": init, "opt": opt, "tags": tags}
+
+    def _gen_pair(self, rng):
+        pairs, t = gen1.rising_bins(rng)
+        a = rand_hist_op(rng, pairs, out=0)
+        p2 = pairs if rng.random() < 0.6 else gen1.rising_bins(rng)[0]
+        b = rand_hist_op(rng, p2, out=1)
+        a["keep"] = b["keep"] = True
+        opt = {"plot": "pair_bars", "density": rng.random() < 0.3, "title_arg": rng.choice([None, "override"]),
+               "names": [rng.choice([None, "first"]), rng.choice([None, "second"])]}
+        return {"kind": "pair", "inits": [a, b], "opt": opt, "tags": ["pair", "plot:pair_bars"] + (["opt:density"] if opt["density"] else [])}
+
+    def _gen_collection(self, rng):
+        pairs, t = gen1.rising_bins(rng)
+        n = rng.randint(1, 3)
+        inits = [rand_hist_op(rng, pairs, out=i) for i in range(n)]
+        for i in inits:
+            i["binning"] = copy.deepcopy(inits[0]["binning"])
+            i["keep"] = True
+        p = rng.choice(["bar", "line", "scatter", "step", "plotly_bar", "plotly_line"])
+        if t["gapped"] and p == "step":
+            p = "bar"
+        opt = {"plot": p, "density": rng.random() < 0.3, "cumulative": rng.random() < 0.3, "title": rng.choice([None, "Coll title"]),
+               "title_arg": rng.choice([None, None, "override"]), "hist_title": rng.choice([None, "member title"])}
+        if opt["density"] and opt["cumulative"]:
+            for i in inits:
+                if all(x == "0" for x in i["freq"]):
+                    i["freq"][0] = "3"
+        return {"kind": "collection", "inits": inits, "opt": opt,
+                "tags": ["collection", "plot:" + p] + ["opt:" + k for k in ("density", "cumulative") if opt[k]]}
+
+    def _gen_ticks(self, rng):
+        mode = rng.choice(["unit"] * 5 + ["edge", "center"] + ["auto"] * 3 + ["invalid"])
+        if mode == "auto":
+            cls = rng.choice(["subsec", "sec", "min", "hour", "day"])
+            a, b = {"subsec": (0.5, 4.0), "sec": (6.0, 280.0), "min": (320.0, 17000.0), "hour": (19000.0, 400000.0),
+                    "day": (5e5, 5e7)}[cls]
+            span = rng.uniform(a, b) if rng.random() < 0.7 else float(rng.choice([a, b, (a + b) / 2]))
+            lo = rng.choice([0.0, -0.3 * span, 1000.0, 259200.0, -span]) + rng.choice([0.0, 0.0, 0.37 * span])
+            return {"kind": "ticks", "unit": None, "lo": lo, "hi": lo + span, "level": "auto", "spell": {"form": "auto"},
+                    "tags": ["ticks", "ticks:auto", "range:" + cls]}
+        unit = rng.choice([("sec", 1), ("sec", 5), ("sec", 0.5), ("sec", 2.5), ("min", 1), ("min", 15), ("hour", 1), ("hour", 6),
+                           ("day", 1), ("day", 2), ("day", 0.5)])
+        w = unit[1] * SECONDS[unit[0]]
         lo = rng.choice([-2.5, -1.0, 0.0, 0.5, 1.0, 3.0]) * w + rng.choice([0, 0, 0.25 * w, -0.5 * w])
         hi = lo + rng.choice([1.0, 2.5, 4.0, 7.25]) * w
-        return {"kind": "ticks", "unit": list(unit), "lo": lo, "hi": hi, "level": rng.choice(["unit", "unit", "edge", "center"]),
-                "tags": ["ticks", "unit:" + unit[0]]}
+        c = {"kind": "ticks", "unit": list(unit), "lo": lo, "hi": hi, "level": mode}
+        if mode == "unit":
+            form = rng.choice(["tuple", "tuple", "str", "str", "str", "number", "timedelta"])
+            c["spell"] = {"form": form, "text": spell_level(rng, *unit) if form == "str" else None}
+            c["tags"] = ["ticks", "ticks:unit", "unit:" + unit[0], "level:" + form]
+        elif mode == "invalid":
+            c["spell"] = {"form": "invalid", "text": rng.choice(["xx", "5 parsecs", "min5", "foo1", "min_only", "min_str", "list", "triple"])}
+            c["tags"] = ["ticks", "ticks:invalid", "level:invalid"]
+        else:
+            c["spell"] = {"form": "str", "text": rng.choice([mode, mode + "s"])}
+            c["tags"] = ["ticks", "ticks:" + mode]
+        return c
 
-    # ------------------------------------------------------------------
+    def _gen_backend(self, rng):
+        pairs, t = gen1.rising_bins(rng)
+        init = rand_hist_op(rng, pairs)
+        init["keep"] = True
+        if all(x == "0" for x in init["freq"]):
+            init["freq"][0] = "3"
+        name = rng.choice(["matplotlib", "plotly", "ascii"])
+        return {"kind": "backend", "init": init, "name": name, "call": rng.choice(["plot", "proxy", "kind_none"]),
+                "bad_names": rng.sample(["bokeh", "no_such_backend", "", "Matplotlib", "vega"], 2), "dir_pick": rng.randint(0, 9),
+                "shape3": [rng.randint(1, 2) for _ in range(3)],
+                "tags": ["backend", "default:" + name, "bad:no_kind_for_dim", "bad:default_backend"]}
+
+    def _gen_data(self, rng):
+        flags = {"density": rng.random() < 0.5, "cumulative": rng.random() < 0.4, "flatten": rng.random() < 0.5}
+        vf = rng.choice([None, "", "x:int", "x:list"] + ["s:" + k for k in VALUE_FORMATS] + ["c:" + k for k in CALLABLE_FORMATS])
+        tags = ["data"] + ["data:" + k for k in flags if flags[k]] + ["vf:" + ("default" if not vf else vf.split(":")[0])]
+        if flags["cumulative"]:
+            tags.append("bad:errors_cumulative")
+        if rng.random() < 0.6:
+            pairs, t = gen1.rising_bins(rng)
+            init = rand_hist_op(rng, pairs)
+            init["keep"] = True
+            if flags["density"] and flags["cumulative"] and all(x == "0" for x in init["freq"]):
+                init["freq"][0] = "3"
+            return {"kind": "data", "dim": 1, "init": init, "flags": flags, "vf": vf, "tags": tags + ["dim:1"]}
+        init, axes = rand_nd_op(rng, d=2, names=True)
+        return {"kind": "data", "dim": 2, "init": init, "flags": flags, "vf": vf, "tags": tags + ["dim:2"]}
+
+    # ------------------------------------------------------------------ implementation
+    @staticmethod
+    def _texts(ax):
+        return [[nrs(t.get_position()[0]), nrs(t.get_position()[1]), t.get_text(), t.get_transform() is ax.transData] for t in ax.texts]
+
+    @staticmethod
+    def _level_obj(case):
+        from datetime import timedelta
+        sp = case.get("spell") or {"form": "tuple"}
+        form = sp["form"]
+        if form == "auto":
+            return None
+        if form == "str":
+            return sp["text"]
+        if form == "invalid":
+            return {"min_only": ("min",), "min_str": ("min", "1"), "list": [1, 2], "triple": ("min", 1, 2), "foo1": ("foo", 1)}.get(sp["text"], sp["text"])
+        unit = case["unit"]
+        w = unit[1] * SECONDS[unit[0]]
+        if form == "number":
+            return w
+        if form == "timedelta":
+            return timedelta(seconds=w)
+        return (unit[0], unit[1])
+
+    def _run_ticks(self, case):
+        from physt import h1
+        from physt.plotting.common import TimeTickHandler
+        e = np.linspace(case["lo"], case["hi"], 5)
+        h = h1(None, e)
+        out = {"edges": [nrs(x) for x in e]}
+        if case["level"] in ("edge", "center") and "spell" not in case:
+            lvl = case["level"]
+        else:
+            lvl = self._level_obj(case)
+        try:
+            th = TimeTickHandler(lvl)
+            ticks, labels = th(h, case["lo"], case["hi"])
+        except Exception as ex:
+            out.update({"refused": type(ex).__name__, "ticks": [], "labels": []})
+            return {"outs": out, "log": []}
+        out.update({"ticks": [nrs(t) for t in ticks], "labels": [str(x) for x in labels]})
+        if case["level"] == "auto":
+            d = TimeTickHandler.deduce_level(case["lo"], case["hi"])
+            out["deduced"] = [str(d[0]), nrs(d[1])]
+        return {"outs": out, "log": []}
+
+    @staticmethod
+    def _kwargs1(p, opt):
+        """keyword arguments of a matplotlib 1-D plot call"""
+        from physt.plotting.common import TimeTickHandler
+        kw = {"density": opt["density"], "cumulative": opt["cumulative"]}
+        if p in ("bar", "line", "scatter") and opt["errors"]:
+            kw["errors"] = True
+        if p != "fill" and opt["show_values"]:
+            kw["show_values"] = True
+            if opt.get("value_format"):
+                kw["value_format"] = value_formatter(opt["value_format"])[0]
+        if opt["title_arg"]:
+            kw["title"] = opt["title_arg"]
+        if opt["xlabel_arg"]:
+            kw["xlabel"] = opt["xlabel_arg"]
+        if opt.get("ylabel_arg"):
+            kw["ylabel"] = opt["ylabel_arg"]
+        if opt.get("show_stats"):
+            kw["show_stats"] = opt["show_stats"]
+            if opt["show_stats"] == "total":
+                kw["stats_title"] = "Stats"
+                kw["stats_loc"] = 4
+        for k in ("xscale", "yscale", "lw", "alpha", "ticks"):
+            if opt.get(k):
+                kw[k] = opt[k]
+        for k in ("xlim", "ylim"):
+            if opt.get(k):
+                kw[k] = tuple(opt[k]) if isinstance(opt[k], list) else opt[k]
+        th = opt.get("tick_handler")
+        if th:
+            kw["tick_handler"] = TimeTickHandler(None if th["form"] == "auto" else th["text"] if th["form"] == "str" else tuple(th["unit"]))
+        return kw
+
+    @staticmethod
+    def _call(h, call, kind, backend, kw):
+        if call == "proxy":
+            return getattr(h.plot, kind)(backend=backend, **kw)
+        if call == "kind_none":
+            return h.plot(backend=backend, **kw)
+        return h.plot(kind, backend=backend, **kw)
+
+    @staticmethod
+    def _default_kind(backend, ndim):
+        import physt.plotting as pp
+        b = pp.backends[backend]
+        ks = [t for t in b.types if ndim in b.dims[t]]
+        return ks[0] if ks else None
+
+    @staticmethod
+    def _read1(ax, out, with_ticks=False):
+        out["title"] = ax.get_title(); out["xlabel"] = ax.get_xlabel(); out["ylabel"] = ax.get_ylabel()
+        out["patches"] = [[nrs(p.get_x()), nrs(p.get_width()), nrs(p.get_height())] for p in ax.patches]
+        out["lines"] = [[[nrs(x) for x in l.get_xdata()], [nrs(y) for y in l.get_ydata()]] for l in ax.lines]
+        out["offsets"] = [[[nrs(a), nrs(b)] for a, b in c.get_offsets()] for c in ax.collections if hasattr(c, "get_offsets") and len(c.get_offsets())]
+        segs = []
+        for c in ax.collections:
+            if hasattr(c, "get_segments"):
+                segs += [[[nrs(a), nrs(b)] for a, b in s] for s in c.get_segments()]
+        out["segments"] = segs
+        polys = []
+        for c in ax.collections:
+            if type(c).__name__ in ("PolyCollection", "FillBetweenPolyCollection"):
+                polys += [[[nrs(a), nrs(b)] for a, b in p.vertices] for p in c.get_paths()]
+        out["polys"] = polys
+        out["texts"] = C20._texts(ax)
+        if with_ticks:
+            out["xticks"] = [nrs(x) for x in ax.get_xticks()]
+            out["xticklabels"] = [t.get_text() for t in ax.get_xticklabels()]
+            out["xlim"] = [nrs(x) for x in ax.get_xlim()]
+
+    @staticmethod
+    def _try_bad(h, bad):
+        """one call that the property wants refused"""
+        import matplotlib.pyplot as plt
+        try:
+            with contextlib.redirect_stdout(_io.StringIO()):
+                if bad == "nobackend":
+                    h.plot("bar" if h.ndim == 1 else "map", backend="no_such_backend")
+                elif bad == "bokeh":
+                    h.plot("bar" if h.ndim == 1 else "map", backend="bokeh")
+                elif bad == "nokind":
+                    h.plot("no_such_kind", backend="matplotlib")
+                elif bad == "hbar":
+                    h.plot("hbar", backend="ascii")
+                elif bad == "ascii_map":
+                    h.plot("map", backend="ascii")
+                elif bad.startswith("plotly_"):
+                    h.plot(bad[7:], backend="plotly")
+                elif bad.startswith("errors_cumulative_"):
+                    h.plot(bad[18:], backend="matplotlib", errors=True, cumulative=True)
+                else:
+                    h.plot(bad, backend="matplotlib")
+            return "accepted"
+        except Exception:
+            return "REFUSED"
+        finally:
+            plt.close("all")
+
+    @staticmethod
+    def _mk_special(case):
+        from physt import special_histograms as sh
+        cls = {"polar": sh.PolarHistogram, "spherical": sh.SphericalSurfaceHistogram, "cylinder": sh.CylindricalSurfaceHistogram}[case["hist"]]
+        b0 = np.array([[impl1.fl(l), impl1.fl(r)] for l, r in case["b0"]])
+        b1 = np.array([[impl1.fl(l), impl1.fl(r)] for l, r in case["b1"]])
+        f = np.array([impl1.fl(x) for x in case["freq"]], dtype=case["dtype"]).reshape(len(b0), len(b1))
+        kw = {"radius": case["radius"]} if "radius" in case else {}
+        return cls([b0, b1], f, **kw)
+
+    @staticmethod
+    def _boxes(coll):
+        """(xmin, ymin, zmin, xmax, ymax, zmax) of every box of a bar3d collection (six faces per box)"""
+        F = getattr(coll, "_faces", None)
+        if F is None:
+            return None
+        F = np.asarray(F, dtype=float)
+        if F.ndim != 3 or F.shape[0] % 6 or F.shape[1:] != (4, 3):
+            return None
+        out = []
+        for b in range(F.shape[0] // 6):
+            v = F[b * 6:(b + 1) * 6].reshape(-1, 3)
+            out.append([nrs(x) for x in list(v.min(axis=0)) + list(v.max(axis=0))])
+        return out
+
+    @staticmethod
+    def _quads(ax):
+        qs = []
+        for c in ax.collections:
+            F = getattr(c, "_faces", None)
+            if F is None:
+                return None
+            F = np.asarray(F, dtype=float)
+            if F.shape != (1, 4, 3):
+                return None
+            qs.append({"verts": [[nrs(x) for x in v] for v in F[0]], "color": [float(x) for x in np.asarray(c.get_facecolor()).reshape(-1, 4)[0]]})
+        return qs
+
     def run_impl(self, case):
         import matplotlib
         matplotlib.use("Agg")
         import matplotlib.pyplot as plt
-        from physt.plotting.common import TimeTickHandler
+        try:
+            return getattr(self, "_run_" + {"refuse2": "refuse", "plotly1": "one", "mpl1": "one", "ascii": "one", "refuse": "one"}.get(case["kind"], case["kind"]))(case)
+        finally:
+            plt.close("all")
+
+    def _finish(self, out, hs, snaps, metas, snap):
+        after = [snap(h) for h in hs]
+        out["unchanged"] = after == snaps and metas == [dict(h.meta_data) for h in hs]
+        if not out["unchanged"]:
+            out["changed_fields"] = [k for a, b in zip(snaps, after) for k in a if a[k] != b[k]]
+            out["changed_fields"] += [k for m, h in zip(metas, hs) for k in set(m) | set(h.meta_data) if m.get(k) != h.meta_data.get(k)]
+        out["snap"] = snaps[0]
+        if len(snaps) > 1:
+            out["snaps"] = snaps
+        h = hs[0]
+        out["sizes"] = [nrs(x) for x in np.asarray(h.bin_sizes).ravel()]
+        out["title_meta"] = h.title; out["axis_names"] = [str(a) for a in h.axis_names]
+
+    def _run_one(self, case):
+        """1-D histogram x one backend (kinds mpl1, plotly1, ascii, refuse, and the 2-D refuse2 through _run_refuse)"""
+        import matplotlib.pyplot as plt
         log = []
-        if case["kind"] == "ticks":
-            from physt import h1
-            e = np.linspace(case["lo"], case["hi"], 5)
-            h = h1(None, e)
-            lvl = {"unit": (case["unit"][0], case["unit"][1]), "edge": "edge", "center": "center"}[case["level"]]
-            th = TimeTickHandler(lvl)
-            ticks, labels = th(h, case["lo"], case["hi"])
-            return {"outs": {"ticks": [nrs(t) for t in ticks], "labels": list(labels), "edges": [nrs(x) for x in e]}, "log": log}
         opt = case["opt"]
-        if case["kind"] == "mpl2":
-            st = implnd.Store(); implnd.step(st, case["init"], log); h = st.get(0)
-            snap = implnd.snapn
-        else:
-            st = impl1.Store(); impl1.step(st, case["init"], log); h = st.get(0)
-            snap = impl1.snap1
-            if opt["name"]:
-                h.name = opt["name"]
-            if opt["title"]:
-                h.title = opt["title"]
-            if opt["axis_name"]:
-                h.axis_name = opt["axis_name"]
-        before = snap(h)
-        meta_before = dict(h.meta_data)
+        st = impl1.Store(); impl1.step(st, case["init"], log); h = st.get(0)
+        if opt["name"]:
+            h.name = opt["name"]
+        if opt["title"]:
+            h.title = opt["title"]
+        if opt["axis_name"]:
+            h.axis_name = opt["axis_name"]
+        before = impl1.snap1(h)
+        meta = dict(h.meta_data)
         out = {"refused": {}}
+        call = opt.get("call", "plot")
         try:
             if case["kind"] == "mpl1":
-                kw = {"density": opt["density"], "cumulative": opt["cumulative"]}
-                if opt["plot"] in ("bar", "line", "scatter") and opt["errors"]:
-                    kw["errors"] = True
-                if opt["plot"] != "fill" and opt["show_values"]:
-                    kw["show_values"] = True
-                if opt["title_arg"]:
-                    kw["title"] = opt["title_arg"]
-                if opt["xlabel_arg"]:
-                    kw["xlabel"] = opt["xlabel_arg"]
-                ax = h.plot(opt["plot"], backend="matplotlib", **kw)
-                out["title"] = ax.get_title(); out["xlabel"] = ax.get_xlabel()
-                out["patches"] = [[nrs(p.get_x()), nrs(p.get_width()), nrs(p.get_height())] for p in ax.patches]
-                out["lines"] = [[[nrs(x) for x in l.get_xdata()], [nrs(y) for y in l.get_ydata()]] for l in ax.lines]
-                out["offsets"] = [[[nrs(a), nrs(b)] for a, b in c.get_offsets()] for c in ax.collections if hasattr(c, "get_offsets") and len(c.get_offsets())]
-                segs = []
-                for c in ax.collections:
-                    if hasattr(c, "get_segments"):
-                        segs += [[[nrs(a), nrs(b)] for a, b in s] for s in c.get_segments()]
-                out["segments"] = segs
-                polys = []
-                for c in ax.collections:
-                    if type(c).__name__ in ("PolyCollection", "FillBetweenPolyCollection"):
-                        polys += [[[nrs(a), nrs(b)] for a, b in p.vertices] for p in c.get_paths()]
-                out["polys"] = polys
-                out["texts"] = [[nrs(t.get_position()[0]), nrs(t.get_position()[1]), t.get_text()] for t in ax.texts]
-                plt.close("all")
+                p = opt["plot"]
+                if call == "kind_none":
+                    p = out["default_kind"] = self._default_kind("matplotlib", 1)
+                ax = self._call(h, call, p, "matplotlib", self._kwargs1(p, opt))
+                self._read1(ax, out, with_ticks=bool(opt.get("ticks") or opt.get("tick_handler")))
+                if opt.get("tick_handler") and opt["tick_handler"]["form"] == "auto":
+                    from physt.plotting.common import TimeTickHandler
+                    d = TimeTickHandler.deduce_level(*[float(Fraction(x)) for x in out["xlim"]])
+                    out["deduced"] = [str(d[0]), nrs(d[1])]
             elif case["kind"] == "plotly1":
-                fig = h.plot(opt["plot"], backend="plotly", density=opt["density"], cumulative=opt["cumulative"])
+                p = opt["plot"]
+                if call == "kind_none":
+                    p = out["default_kind"] = self._default_kind("plotly", 1)
+                kw = {"density": opt["density"], "cumulative": opt["cumulative"]}
+                if opt.get("ticks"):
+                    kw["ticks"] = opt["ticks"]
+                th = opt.get("tick_handler")
+                if th:
+                    from physt.plotting.common import TimeTickHandler
+                    kw["tick_handler"] = TimeTickHandler(th["text"] if th["form"] == "str" else tuple(th["unit"]))
+                fig = self._call(h, call, p, "plotly", kw)
                 tr = fig.data[0]
                 out["trace"] = {"type": tr.type, "x": [nrs(x) for x in tr.x], "y": [nrs(y) for y in tr.y],
                                 "width": [nrs(w) for w in tr.width] if getattr(tr, "width", None) is not None else None,
                                 "mode": getattr(tr, "mode", None), "name": tr.name}
+                tv = fig.layout.xaxis.tickvals
+                out["tickvals"] = None if tv is None else [nrs(x) for x in tv]
+                tt = fig.layout.xaxis.ticktext
+                out["ticktext"] = None if tt is None else [str(x) for x in tt]
             elif case["kind"] == "ascii":
                 buf = _io.StringIO()
                 with contextlib.redirect_stdout(buf):
-                    h.plot("hbar", backend="ascii", width=opt["width"], show_values=opt["show_values"])
+                    self._call(h, call, "hbar", "ascii", {"width": opt["width"], "show_values": opt["show_values"]})
                 out["stdout"] = buf.getvalue().splitlines()
-            elif case["kind"] == "mpl2":
-                if opt["plot"] == "plotly_map":
-                    fig = h.plot("map", backend="plotly")
-                    tr = fig.data[0]
-                    out["heatmap"] = {"x": [nrs(v) for v in tr.x] if tr.x is not None else None, "y": [nrs(v) for v in tr.y] if tr.y is not None else None, "z": [[nrs(v) for v in row] for row in tr.z]}
-                elif opt["plot"] == "map":
-                    ax = h.plot("map", backend="matplotlib", density=opt["density"], show_zero=opt["show_zero"], show_values=opt["show_values"],
-                                show_colorbar=False)
-                    out["rects"] = [[nrs(p.get_x()), nrs(p.get_y()), nrs(p.get_width()), nrs(p.get_height()), [float(c) for c in p.get_facecolor()]]
-                                    for p in ax.patches]
-                    out["texts"] = [[nrs(t.get_position()[0]), nrs(t.get_position()[1]), t.get_text()] for t in ax.texts]
-                    out["title"] = ax.get_title(); out["xlabel"] = ax.get_xlabel(); out["ylabel"] = ax.get_ylabel()
-                    plt.close("all")
-                else:
-                    ax = h.plot("image", backend="matplotlib", density=opt["density"], show_colorbar=False)
-                    im = ax.images[0]
-                    out["image"] = {"extent": [nrs(x) for x in im.get_extent()], "array": [[nrs(v) for v in row] for row in np.asarray(im.get_array())]}
-                    out["xlabel"] = ax.get_xlabel(); out["ylabel"] = ax.get_ylabel()
-                    plt.close("all")
-            elif case["kind"] == "refuse":
-                pass
         except Exception as e:
             out["plot_error"] = f"{type(e).__name__}: {e}"[:200]
-            plt.close("all")
-        # refusals: wrong dimension, unknown kind / backend
-        bad = opt["bad"]
+        plt.close("all")
+        out["refused"][opt["bad"]] = self._try_bad(h, opt["bad"])
+        self._finish(out, [h], [before], [meta], impl1.snap1)
+        return {"outs": out, "log": log}
+
+    def _run_refuse(self, case):
+        log = []
+        st = implnd.Store(); implnd.step(st, case["init"], log); h = st.get(0)
+        before, meta = implnd.snapn(h), dict(h.meta_data)
+        out = {"refused": {case["opt"]["bad"]: self._try_bad(h, case["opt"]["bad"])}}
+        self._finish(out, [h], [before], [meta], implnd.snapn)
+        return {"outs": out, "log": log}
+
+    def _run_ascii_map(self, case):
+        import xtermcolor
+        log = []
+        opt = case["opt"]
+        st = implnd.Store(); implnd.step(st, case["init"], log); h = st.get(0)
+        before, meta = implnd.snapn(h), dict(h.meta_data)
+        out = {"refused": {}}
+        kw = {k: opt[k] for k in ("cmap", "value_format") if opt[k]}
+        buf = _io.StringIO()
+        real = xtermcolor.colorize
+        # the terminal library only colours when stdout is a terminal: record what it is asked to draw instead
+        xtermcolor.colorize = lambda string, rgb=None, ansi=None, bg=None, ansi_bg=None, fd=1: f"[{int(rgb)}]"
         try:
-            if bad == "nobackend":
-                h.plot("bar", backend="no_such_backend")
-            elif bad == "nokind":
-                h.plot("no_such_kind", backend="matplotlib")
-            elif bad == "hbar":
-                with contextlib.redirect_stdout(_io.StringIO()):
-                    h.plot("hbar", backend="ascii")
-            else:
-                h.plot(bad, backend="matplotlib")
-            out["refused"][bad] = "accepted"
-            plt.close("all")
+            with contextlib.redirect_stdout(buf):
+                h.plot("map", backend="ascii", **kw)
+            out["stdout"] = buf.getvalue().splitlines()
         except Exception as e:
-            out["refused"][bad] = "REFUSED"
+            out["plot_error"] = f"{type(e).__name__}: {e}"[:200]
+        finally:
+            xtermcolor.colorize = real
+        out["refused"][opt["bad"]] = self._try_bad(h, opt["bad"])
+        self._finish(out, [h], [before], [meta], implnd.snapn)
+        return {"outs": out, "log": log}
+
+    def _run_mpl2(self, case):
+        import matplotlib.pyplot as plt
+        log = []
+        opt = case["opt"]
+        st = implnd.Store(); implnd.step(st, case["init"], log); h = st.get(0)
+        if opt.get("title"):
+            h.title = opt["title"]
+        before, meta = implnd.snapn(h), dict(h.meta_data)
+        out = {"refused": {}}
+        lab = {k: opt[a] for k, a in (("title", "title_arg"), ("xlabel", "xlabel_arg"), ("ylabel", "ylabel_arg")) if opt.get(a)}
+        try:
+            if opt["plot"] == "plotly_map":
+                fig = h.plot("map", backend="plotly")
+                tr = fig.data[0]
+                out["heatmap"] = {"x": [nrs(v) for v in tr.x] if tr.x is not None else None, "y": [nrs(v) for v in tr.y] if tr.y is not None else None, "z": [[nrs(v) for v in row] for row in tr.z]}
+            elif opt["plot"] == "map":
+                kw = dict(density=opt["density"], show_zero=opt["show_zero"], show_values=opt["show_values"],
+                          show_colorbar=bool(opt.get("show_colorbar")), **lab)
+                if opt.get("value_format"):
+                    kw["value_format"] = value_formatter(opt["value_format"])[0]
+                for k in ("cmap", "cmap_normalize", "cmap_min", "cmap_max", "grid_color", "alpha"):
+                    if opt.get(k) is not None:
+                        kw[k] = opt[k]
+                if opt.get("transform"):
+                    fx, fy = TRANSFORMS[opt["transform"]]
+                    if fx:
+                        kw["x"] = fx
+                    if fy:
+                        kw["y"] = fy
+                ax = h.plot("map", backend="matplotlib", **kw)
+                self._read_cells(ax, out)
+                out["title"] = ax.get_title(); out["xlabel"] = ax.get_xlabel(); out["ylabel"] = ax.get_ylabel()
+            else:
+                kw = dict(density=opt["density"], show_colorbar=False, **lab)
+                if opt.get("interpolation"):
+                    kw["interpolation"] = opt["interpolation"]
+                ax = h.plot("image", backend="matplotlib", **kw)
+                im = ax.images[0]
+                out["image"] = {"extent": [nrs(x) for x in im.get_extent()], "array": [[nrs(v) for v in row] for row in np.asarray(im.get_array())]}
+                out["title"] = ax.get_title(); out["xlabel"] = ax.get_xlabel(); out["ylabel"] = ax.get_ylabel()
+        except Exception as e:
+            out["plot_error"] = f"{type(e).__name__}: {e}"[:200]
+        plt.close("all")
+        out["refused"][opt["bad"]] = self._try_bad(h, opt["bad"])
+        self._finish(out, [h], [before], [meta], implnd.snapn)
+        return {"outs": out, "log": log}
+
+    @staticmethod
+    def _read_cells(ax, out):
+        rects, paths = [], []
+        for p in ax.patches:
+            col = [float(c) for c in p.get_facecolor()]
+            if type(p).__name__ == "Rectangle":
+                rects.append([nrs(p.get_x()), nrs(p.get_y()), nrs(p.get_width()), nrs(p.get_height()), col])
+            else:
+                paths.append({"verts": [[nrs(a), nrs(b)] for a, b in p.get_path().vertices], "color": col})
+        out["rects"] = rects
+        out["paths"] = paths
+        out["texts"] = C20._texts(ax)
+
+    def _run_polar(self, case):
+        import matplotlib.pyplot as plt
+        opt = case["opt"]
+        h = self._mk_special(case)
+        before, meta = implnd.snapn(h), dict(h.meta_data)
+        out = {"refused": {}}
+        kw = {"density": opt["density"], "show_zero": opt["show_zero"], "show_colorbar": False}
+        for k in ("cmap", "grid_color"):
+            if opt.get(k):
+                kw[k] = opt[k]
+        try:
+            if opt["plot"] == "polar_map":
+                ax = self._call(h, opt["call"], "polar_map", "matplotlib", kw)
+                out["axes_class"] = type(ax).__name__
+            else:
+                fx, fy = TRANSFORMS["polar_xy"]
+                ax = self._call(h, opt["call"], "map", "matplotlib", dict(kw, x=fx, y=fy))
+            self._read_cells(ax, out)
+        except Exception as e:
+            out["plot_error"] = f"{type(e).__name__}: {e}"[:200]
+        plt.close("all")
+        out["refused"][opt["bad"]] = self._try_bad(h, opt["bad"])
+        self._finish(out, [h], [before], [meta], implnd.snapn)
+        return {"outs": out, "log": []}
+
+    def _run_mpl3d(self, case):
+        import matplotlib.pyplot as plt
+        log = []
+        opt = case["opt"]
+        if "hist" in case:
+            h = self._mk_special(case)
+        else:
+            st = implnd.Store(); implnd.step(st, case["init"], log); h = st.get(0)
+        before, meta = implnd.snapn(h), dict(h.meta_data)
+        out = {"refused": {}}
+        p = opt["plot"]
+        try:
+            if p == "bar3d":
+                lab = {k: opt[a] for k, a in (("title", "title_arg"), ("xlabel", "xlabel_arg"), ("ylabel", "ylabel_arg")) if opt.get(a)}
+                ax = h.plot("bar3d", backend="matplotlib", density=opt["density"], **lab)
+                out["boxes"] = self._boxes(ax.collections[0]) if len(ax.collections) == 1 else None
+                out["n_collections"] = len(ax.collections)
+                out["title"] = ax.get_title(); out["xlabel"] = ax.get_xlabel(); out["ylabel"] = ax.get_ylabel()
+            else:
+                kw = {"density": opt["density"], "show_zero": opt["show_zero"]}
+                if p == "surface_map":
+                    if SURFACE_Z[opt["z"]]:
+                        kw["z"] = SURFACE_Z[opt["z"]]
+                    if opt.get("transform"):
+                        kw["x"], kw["y"] = TRANSFORMS[opt["transform"]]
+                ax = h.plot(p, backend="matplotlib", **kw)
+                out["quads"] = self._quads(ax)
+        except Exception as e:
+            out["plot_error"] = f"{type(e).__name__}: {e}"[:200]
+        plt.close("all")
+        out["refused"][opt["bad"]] = self._try_bad(h, opt["bad"])
+        self._finish(out, [h], [before], [meta], implnd.snapn)
+        return {"outs": out, "log": log}
+
+    def _run_pair(self, case):
+        import matplotlib.pyplot as plt
+        from physt.plotting import matplotlib as pm
+        log = []
+        opt = case["opt"]
+        st = impl1.Store()
+        for i in case["inits"]:
+            impl1.step(st, i, log)
+        hs = [st.get(0), st.get(1)]
+        for h, n in zip(hs, opt["names"]):
+            if n:
+                h.name = n
+        snaps, metas = [impl1.snap1(h) for h in hs], [dict(h.meta_data) for h in hs]
+        out = {"refused": {}}
+        kw = {"density": True} if opt["density"] else {}
+        if opt["title_arg"]:
+            kw["title"] = opt["title_arg"]
+        try:
+            ax = pm.pair_bars(hs[0], hs[1], **kw)
+            self._read1(ax, out)
+        except Exception as e:
+            out["plot_error"] = f"{type(e).__name__}: {e}"[:200]
+        plt.close("all")
+        self._finish(out, hs, snaps, metas, impl1.snap1)
+        return {"outs": out, "log": log}
+
+    def _run_collection(self, case):
+        import matplotlib.pyplot as plt
+        from physt.types import HistogramCollection
+        log = []
+        opt = case["opt"]
+        st = impl1.Store()
+        for i in case["inits"]:
+            impl1.step(st, i, log)
+        hs = [st.get(k) for k in range(len(case["inits"]))]
+        for k, h in enumerate(hs):
+            h.name = f"member{k}"
+        if opt["hist_title"]:
+            hs[0].title = opt["hist_title"]
+        snaps, metas = [impl1.snap1(h) for h in hs], [dict(h.meta_data) for h in hs]
+        out = {"refused": {}}
+        try:
+            coll = HistogramCollection(*hs, title=opt["title"])
+            kw = {"density": opt["density"], "cumulative": opt["cumulative"]}
+            if opt["plot"].startswith("plotly_"):
+                fig = coll.plot(opt["plot"][7:], backend="plotly", **kw)
+                out["traces"] = [{"x": [nrs(x) for x in tr.x], "y": [nrs(y) for y in tr.y], "name": tr.name} for tr in fig.data]
+            else:
+                if opt["title_arg"]:
+                    kw["title"] = opt["title_arg"]
+                ax = coll.plot(opt["plot"], backend="matplotlib", **kw)
+                self._read1(ax, out)
+            out["coll_title"] = coll.title
+        except Exception as e:
+            out["plot_error"] = f"{type(e).__name__}: {e}"[:200]
+        plt.close("all")
+        self._finish(out, hs, snaps, metas, impl1.snap1)
+        return {"outs": out, "log": log}
+
+    def _run_backend(self, case):
+        import matplotlib.pyplot as plt
+        import physt.plotting as pp
+        from physt.histogram_nd import HistogramND
+        log = []
+        st = impl1.Store(); impl1.step(st, case["init"], log); h = st.get(0)
+        before, meta = impl1.snap1(h), dict(h.meta_data)
+        out = {"refused": {}, "prev": pp.get_default_backend(), "bad_set": {}}
+        prev = out["prev"]
+        name = case["name"]
+        try:
+            pp.set_default_backend(name)
+            out["after_set"] = pp.get_default_backend()
+            buf = _io.StringIO()
+            with contextlib.redirect_stdout(buf):
+                kind = self._default_kind(name, 1)
+                r = h.plot() if case["call"] == "kind_none" else getattr(h.plot, kind)() if case["call"] == "proxy" else h.plot(kind)
+            out["ret_module"] = type(r).__module__ if r is not None else None
+            out["stdout_lines"] = len(buf.getvalue().splitlines())
             plt.close("all")
-        after = snap(h)
-        out["unchanged"] = before == after and meta_before == dict(h.meta_data)
-        if not out["unchanged"]:
-            out["changed_fields"] = [k for k in before if before[k] != after[k]]
-        out["snap"] = before
-        out["sizes"] = [nrs(x) for x in np.asarray(h.bin_sizes).ravel()]
-        out["title_meta"] = h.title; out["axis_names"] = [str(a) for a in h.axis_names]
+            out["dir"] = [str(x) for x in dir(h.plot)]
+            if out["dir"]:
+                pick = out["dir"][case["dir_pick"] % len(out["dir"])]
+                try:
+                    with contextlib.redirect_stdout(_io.StringIO()):
+                        getattr(h.plot, pick)()
+                    out["dir_pick"] = [pick, "accepted"]
+                except Exception as e:
+                    out["dir_pick"] = [pick, f"{type(e).__name__}: {e}"[:120]]
+                plt.close("all")
+            for bad in case["bad_names"]:
+                try:
+                    pp.set_default_backend(bad)
+                    res = "accepted"
+                except Exception:
+                    res = "REFUSED"
+                out["bad_set"][bad] = [res, pp.get_default_backend()]
+                if res == "accepted":
+                    pp.set_default_backend(name)
+            # a histogram of a dimension no kind of the backend draws, kind left open
+            shape = case["shape3"]
+            h3 = HistogramND([np.arange(n + 1, dtype=float) for n in shape], np.ones(shape))
+            try:
+                with contextlib.redirect_stdout(_io.StringIO()):
+                    h3.plot()
+                out["refused"]["no_kind_for_dim"] = "accepted"
+            except Exception:
+                out["refused"]["no_kind_for_dim"] = "REFUSED"
+        except Exception as e:
+            out["plot_error"] = f"{type(e).__name__}: {e}"[:200]
+        finally:
+            plt.close("all")
+            try:
+                pp.set_default_backend(prev)
+            except Exception:
+                pp._default_backend = prev      # keep the cases independent whatever happened
+            if pp.get_default_backend() != prev:
+                out["restore_failed"] = True
+                pp._default_backend = prev
+        out["restored"] = "restore_failed" not in out
+        self._finish(out, [h], [before], [meta], impl1.snap1)
+        return {"outs": out, "log": log}
+
+    def _run_data(self, case):
+        from physt.plotting.common import get_data, get_err_data, get_value_format
+        log = []
+        if case["dim"] == 1:
+            st = impl1.Store(); impl1.step(st, case["init"], log); h = st.get(0)
+            snap = impl1.snap1
+        else:
+            st = implnd.Store(); implnd.step(st, case["init"], log); h = st.get(0)
+            snap = implnd.snapn
+        before, meta = snap(h), dict(h.meta_data)
+        out = {"refused": {}}
+        for nm, f in (("data", get_data), ("err", get_err_data)):
+            try:
+                a = np.asarray(f(h, **case["flags"]))
+                out[nm] = {"shape": list(a.shape), "values": [nrs(x) for x in a.ravel()]}
+            except Exception as e:
+                out[nm] = {"refused": type(e).__name__}
+        vf = case["vf"]
+        obj = value_formatter(vf)[0] if vf and ":" in vf else vf
+        if vf and vf.startswith("x:"):
+            obj = value_formatter("x:" + vf[2:])[0]
+        try:
+            g = get_value_format(obj)
+            out["vf"] = [str(g(v)) for v in (0, 3, 1.5, 0.125, 1234.5678)]
+        except Exception as e:
+            out["vf"] = {"refused": type(e).__name__}
+        self._finish(out, [h], [before], [meta], snap)
         return {"outs": out, "log": log}
 
     # ------------------------------------------------------------------ model
     def model_case(self, case, io):
         o = io["outs"]
         if case["kind"] == "ticks":
-            if case["level"] != "unit":
+            if case["level"] != "unit" or "refused" in o:
                 return None
-            w = case["unit"][1] * {"sec": 1, "min": 60, "hour": 3600}[case["unit"][0]]
+            w = case["unit"][1] * SECONDS[case["unit"][0]]
             return {"kind": "plot", "what": "ticks", "lo": rs(case["lo"]), "hi": rs(case["hi"]), "w": rs(w)}
-        if "plot_error" in o:
+        if "plot_error" in o or case["kind"] not in ("mpl1", "plotly1", "ascii", "mpl2"):
             return None
+        opt = case["opt"]
         if case["kind"] in ("mpl1", "plotly1"):
             s = o["snap"]
             if any(x in (None, "inf", "-inf") for x in s["freq"] + s["err2"]):
                 return None
+            if opt["density"] and opt["cumulative"]:
+                return None     # the model's get_data takes one flag at a time
             return {"kind": "plot", "what": "marks1d", "bins": s["bins"], "freq": s["freq"], "err2": s["err2"],
-                    "density": case["opt"]["density"], "cumulative": case["opt"]["cumulative"]}
+                    "density": opt["density"], "cumulative": opt["cumulative"]}
         if case["kind"] == "ascii":
-            return {"kind": "plot", "what": "ascii", "freq": o["snap"]["freq"], "width": case["opt"]["width"]}
-        if case["kind"] == "mpl2" and case["opt"]["plot"] == "map" and not case["opt"]["density"]:
+            return {"kind": "plot", "what": "ascii", "freq": o["snap"]["freq"], "width": opt["width"]}
+        if case["kind"] == "mpl2" and opt["plot"] == "map" and not opt["density"] and not opt.get("transform"):
             s = o["snap"]
             return {"kind": "plot", "what": "map2d", "xbins": s["bins"][0], "ybins": s["bins"][1], "data": s["freq"]}
         return None
@@ -237,18 +1081,19 @@ class C20:
         opt = case["opt"]
         tol = lambda a, b: abs(Fraction(a) - Fraction(b)) <= Fraction(1, 10**9) * max(abs(Fraction(a)), abs(Fraction(b)), Fraction(1, 10**9))
         if case["kind"] == "mpl1":
-            if opt["plot"] == "bar":
+            p = o.get("default_kind", opt["plot"])
+            if p == "bar":
                 if len(m["bars"]) != len(o["patches"]) or any(not (tol(a[0], b[0]) and tol(a[1], b[1]) and tol(a[2], b[2])) for a, b in zip(m["bars"], o["patches"])):
                     d.append(f"bars: model={m['bars'][:3]} impl={o['patches'][:3]}")
-            elif opt["plot"] == "step":
+            elif p == "step":
                 got = o["lines"][0] if o["lines"] else [[], []]
-                if [p[0] for p in m["step"]] != got[0] or any(not tol(a[1], b) for a, b in zip(m["step"], got[1])):
+                if [q[0] for q in m["step"]] != got[0] or any(not tol(a[1], b) for a, b in zip(m["step"], got[1])):
                     d.append("step line differs")
-            elif opt["plot"] == "line" and not opt["errors"]:
+            elif p == "line" and not opt["errors"]:
                 got = o["lines"][0] if o["lines"] else [[], []]
                 if any(not tol(a[0], b) for a, b in zip(m["centres"], got[0])) or any(not tol(a[1], b) for a, b in zip(m["centres"], got[1])) or len(got[0]) != len(m["centres"]):
                     d.append("line differs")
-            elif opt["plot"] == "scatter":
+            elif p == "scatter":
                 got = o["offsets"][-1] if o["offsets"] else []
                 if len(got) != len(m["centres"]) or any(not (tol(a[0], b[0]) and tol(a[1], b[1])) for a, b in zip(m["centres"], got)):
                     d.append("scatter points differ")
@@ -268,113 +1113,533 @@ class C20:
         return d
 
     # ------------------------------------------------------------------ oracle
+    @staticmethod
+    def _data1(s, density, cumulative):
+        bins = [(ff(l), ff(r)) for l, r in s["bins"]]
+        f = [ff(x) for x in s["freq"]]
+        e2 = [ff(x) for x in s["err2"]]
+        sizes = [r - l for l, r in bins]
+        if cumulative and density:
+            tot = sum(f)
+            data = [x / tot for x in np.cumsum(f)]      # the running sum of frequencies / total
+        elif cumulative:
+            data = list(np.cumsum(f))
+        elif density:
+            data = [a / b for a, b in zip(f, sizes)]
+        else:
+            data = f
+        return bins, f, e2, sizes, [(l + r) / 2 for l, r in bins], [float(x) for x in data]
+
+    @staticmethod
+    def _grid(s):
+        xb = [(ff(l), ff(r)) for l, r in s["bins"][0]]
+        yb = [(ff(l), ff(r)) for l, r in s["bins"][1]]
+        f = np.array([ff(x) for x in s["freq"]]).reshape(len(xb), len(yb))
+        return xb, yb, f
+
+    @staticmethod
+    def _auto_ticks_fail(ticks, lo, hi, deduced):
+        name, n = deduced
+        w = ff(n) * SECONDS.get(name, 0)
+        if not w > 0:
+            return f"ticks_auto: the chosen level {deduced} is not a positive unit"
+        eps = 1e-6 * w
+        ks = []
+        for t in ticks:
+            k = round(t / w)
+            if abs(t - k * w) > eps:
+                return f"ticks_auto: tick {t} is not a multiple of the chosen unit {w} s"
+            if not (lo - eps <= t <= hi + eps):
+                return f"ticks_auto: tick {t} outside [{lo}, {hi}]"
+            ks.append(k)
+        want = [k for k in range(math.ceil(lo / w) - 1, math.floor(hi / w) + 2) if lo + eps < k * w < hi - eps]
+        miss = [k * w for k in want if k not in ks]
+        if miss:
+            return f"ticks_auto: the multiples {miss[:4]} of the chosen unit {w} s lie inside [{lo}, {hi}] but have no tick"
+        return None
+
+    def _or_ticks(self, case, o):
+        fails = []
+        sp = case.get("spell") or {"form": "tuple"}
+        if "refused" in o:
+            if case["level"] in ("unit", "edge", "center", "auto") and sp["form"] not in ("number", "timedelta"):
+                fails.append(f"ticks_refused: level {sp.get('text') or case['unit']!r} refused with {o['refused']}")
+            return fails
+        ticks = [ff(t) for t in o["ticks"]]
+        if len(o["labels"]) != len(ticks):
+            fails.append(f"tick_labels: {len(ticks)} ticks but {len(o['labels'])} labels")
+        lo, hi = case["lo"], case["hi"]
+        if case["level"] == "unit":
+            w = case["unit"][1] * SECONDS[case["unit"][0]]
+            exp = multiples_inside(lo, hi, w)
+            if any(abs(a - b) > 1e-9 for a, b in zip(ticks, exp)) or len(ticks) != len(exp):
+                fails.append(f"ticks: {len(ticks)} ticks {ticks[:8]} for [{lo}, {hi}] and unit {w} (given as {sp.get('text') or sp['form']!r}); the {len(exp)} multiples inside the range are {exp[:8]}")
+        elif case["level"] == "edge":
+            if o["ticks"] != o["edges"]:
+                fails.append("ticks_edges: edge-level ticks are not the bin edges")
+        elif case["level"] == "center":
+            e = [ff(x) for x in o["edges"]]
+            c = [(e[i] + e[i + 1]) / 2 for i in range(len(e) - 1)]
+            if len(ticks) != len(c) or any(abs(a - b) > 1e-9 * max(1, abs(b)) for a, b in zip(ticks, c)):
+                fails.append("ticks_centres: centre-level ticks are not the bin centres")
+        elif case["level"] == "auto":
+            f = self._auto_ticks_fail(ticks, lo, hi, o["deduced"])
+            if f:
+                fails.append(f)
+        return fails
+
+    def _or_marks1(self, p, opt, o, s, fails, patches=None, line=None, pts=None, sign=1.0, what=""):
+        """the marks of one 1-D histogram drawn as kind p"""
+        bins, f, e2, sizes, centres, data = self._data1(s, opt["density"], opt.get("cumulative", False))
+        data = [sign * d for d in data]
+        if p == "bar":
+            got = [[ff(x) for x in r] for r in (o["patches"] if patches is None else patches)]
+            exp = [[l, r - l, d] for (l, r), d in zip(bins, data)]
+            if len(got) != len(exp) or any(not all(close(a, b) for a, b in zip(x, y)) for x, y in zip(got, exp)):
+                fails.append(f"bar_marks: {what}bars (left, width, height) {got[:3]} ... expected {exp[:3]}")
+        elif p == "step":
+            got = line if line is not None else (o["lines"][0] if o["lines"] else [[], []])
+            ex = [bins[0][0]] + [r for _, r in bins]
+            ey = [data[0]] + list(data)
+            if [ff(x) for x in got[0]] != ex or len(got[1]) != len(ey) or any(not close(ff(a), b) for a, b in zip(got[1], ey)):
+                fails.append(f"step_marks: {what}the step line does not follow the edges / values")
+        elif p in ("line", "scatter"):
+            if p == "line":
+                got = line if line is not None else (o["lines"][0] if o["lines"] else [[], []])
+                gx, gy = [ff(x) for x in got[0]], [ff(x) for x in got[1]]
+            else:
+                q = pts if pts is not None else (o["offsets"][-1] if o["offsets"] else [])
+                gx, gy = [ff(a) for a, _ in q], [ff(b) for _, b in q]
+            if len(gx) != len(centres) or any(not close(a, b) for a, b in zip(gx, centres)) or any(not close(a, b) for a, b in zip(gy, data)):
+                fails.append(f"{p}_marks: {what}points are not (bin centre, value): y {gy[:4]} expected {data[:4]}")
+        elif p == "fill":
+            if not o["polys"]:
+                fails.append("fill_marks: no filled polygon")
+            else:
+                verts = {(round(ff(a), 9), round(ff(b), 9)) for a, b in o["polys"][0]}
+                if any((round(c, 9), round(d, 9)) not in verts for c, d in zip(centres, data)):
+                    fails.append("fill_marks: the filled area does not pass through (bin centre, value)")
+        return bins, e2, sizes, centres, data
+
+    def _or_mpl1(self, case, o, fails):
+        opt = case["opt"]
+        s = o["snap"]
+        p = o.get("default_kind", opt["plot"])
+        if p not in ("bar", "step", "line", "scatter", "fill"):
+            return
+        bins, e2, sizes, centres, data = self._or_marks1(p, opt, o, s, fails)
+        if opt["errors"] and p in ("bar", "line", "scatter") and not opt["cumulative"]:
+            err = [math.sqrt(x) / (sz if opt["density"] else 1) for x, sz in zip(e2, sizes)]
+            segs = [[(ff(a), ff(b)) for a, b in sg] for sg in o["segments"] if len(sg) == 2]
+            vert = [sg for sg in segs if close(sg[0][0], sg[1][0])]
+            for c, dval, er in zip(centres, data, err):
+                hit = [sg for sg in vert if close(sg[0][0], c, 1e-7)]
+                if not hit:
+                    if er > 0:
+                        fails.append(f"error_bars: no error bar at bin centre {c}")
+                        break
+                    continue
+                lo_, hi_ = sorted([hit[0][0][1], hit[0][1][1]])
+                etol = 1e-6 * max(abs(dval), er, 1e-12)  # float16/float32 histograms carry errors in their own precision
+                if not (abs(lo_ - (dval - er)) <= etol and abs(hi_ - (dval + er)) <= etol):
+                    fails.append(f"error_bars: error bar at {c} spans [{lo_}, {hi_}], expected value ± sqrt(errors2){'/size' if opt['density'] else ''} = [{dval - er}, {dval + er}]")
+                    break
+        want_title = opt["title_arg"] or o["title_meta"] or ""
+        if o["title"] != want_title:
+            fails.append(f"title: plot title {o['title']!r}, expected {want_title!r}")
+        want_x = opt["xlabel_arg"] or o["axis_names"][0]
+        if o["xlabel"] != want_x:
+            fails.append(f"xlabel: {o['xlabel']!r}, expected {want_x!r}")
+        if opt.get("ylabel_arg") and o["ylabel"] != opt["ylabel_arg"]:
+            fails.append(f"ylabel: {o['ylabel']!r}, expected the given {opt['ylabel_arg']!r}")
+        if opt["show_values"] and p != "fill":
+            fmt = value_formatter(opt.get("value_format"))[1]
+            tx = [(ff(t[0]), ff(t[1]), t[2]) for t in o["texts"] if len(t) < 4 or t[3]]
+            if len(tx) != len(centres) or any(not (close(a[0], c) and close(a[1], dv)) for a, c, dv in zip(tx, centres, data)):
+                fails.append("value_labels: value labels are not at (bin centre, value)")
+            else:
+                bad = [(a[2], dv) for a, dv in zip(tx, data) if not label_ok(a[2], fmt, dv)]
+                if bad:
+                    fails.append(f"value_format: label {bad[0][0]!r} for the value {bad[0][1]!r} with value_format={opt.get('value_format')!r}")
+        if opt.get("ticks") and "xticks" in o:
+            xt = [ff(x) for x in o["xticks"]]
+            if opt["ticks"] == "center":
+                if len(xt) != len(centres) or any(not close(a, b) for a, b in zip(xt, centres)):
+                    fails.append(f"ticks_centres: ticks='center' gives {xt[:5]}, the bin centres are {centres[:5]}")
+            else:
+                edges = [l for l, _ in bins] + [r for _, r in bins]
+                if any(not any(close(l, x) for x in xt) for l, _ in bins) or any(not any(close(x, e) for e in edges) for x in xt):
+                    fails.append(f"ticks_edges: ticks='edge' gives {xt[:5]}, the bin edges are {sorted(set(edges))[:6]}")
+        th = opt.get("tick_handler")
+        if th and "xticks" in o:
+            xt = [ff(x) for x in o["xticks"]]
+            lo, hi = bins[0][0], bins[-1][1]
+            if len(o["xticklabels"]) != len(xt):
+                fails.append(f"tick_labels: {len(xt)} ticks but {len(o['xticklabels'])} labels on the axis")
+            if th["form"] == "auto":
+                f_ = self._auto_ticks_fail(xt, lo, hi, o["deduced"]) if "deduced" in o else None
+                if f_:
+                    fails.append(f_)
+            else:
+                w = th["unit"][1] * SECONDS[th["unit"][0]]
+                exp = multiples_inside(lo, hi, w)
+                if len(xt) != len(exp) or any(abs(a - b) > 1e-9 for a, b in zip(xt, exp)):
+                    fails.append(f"ticks: the {len(xt)} axis ticks {xt[:8]} for bins over [{lo}, {hi}] and a tick handler of unit {w} s; the {len(exp)} multiples inside are {exp[:8]}")
+
+    def _or_cells(self, o, exp, cmap, fails, what, log=False, geometry="rects"):
+        """exp: [(geometry, value)] of the cells to draw, in drawing order; colours through the colour map's ordering"""
+        got = o[geometry]
+        if len(got) != len(exp):
+            fails.append(f"{what}_cells: {len(got)} cells drawn for {len(exp)} bins to draw")
+            return False
+        for g, (geo, v) in zip(got, exp):
+            if geometry == "rects":
+                ok = all(close(ff(g[i]), geo[i], 1e-6) for i in range(4))
+                shown = [ff(x) for x in g[:4]]
+            else:
+                vs = [(ff(a), ff(b)) for a, b in g["verts"]]
+                ok = len(vs) == len(geo) and all(close(a[0], b[0], 1e-6) and close(a[1], b[1], 1e-6) for a, b in zip(vs, geo))
+                shown = vs
+            if not ok:
+                fails.append(f"{what}_cells: cell drawn at {shown} for the bin at {list(geo)}")
+                return False
+        cols = [g[4] if geometry == "rects" else g["color"] for g in got]
+        keep = [i for i, (_, v) in enumerate(exp) if not log or v > 0]
+        if not monotone([exp[i][1] for i in keep], [cmap_pos(cols[i], cmap) for i in keep]):
+            fails.append(f"{what}_colour: cell colour is not monotone in the value (colour map {cmap})")
+        return True
+
+    def _or_mpl2(self, case, o, fails):
+        opt = case["opt"]
+        xb, yb, f = self._grid(o["snap"])
+        area = np.outer([r - l for l, r in xb], [r - l for l, r in yb])
+        data = f / area if opt["density"] else f
+        if opt["plot"] == "map":
+            tr = opt.get("transform")
+            fx, fy = TRANSFORMS[tr] if tr else (None, None)
+            fx = fx or (lambda x, y: x)
+            fy = fy or (lambda x, y: y)
+            exp, centres = [], []
+            for i, (xl, xr) in enumerate(xb):
+                for j, (yl, yr) in enumerate(yb):
+                    if data[i, j] != 0 or opt["show_zero"]:
+                        if tr:
+                            pts = [(xl, yl), (xr, yl), (xr, yr), (xl, yr), (xl, yl)]
+                            exp.append(([(fx(*q), fy(*q)) for q in pts], float(data[i, j])))
+                        else:
+                            exp.append(((xl, yl, xr - xl, yr - yl), float(data[i, j])))
+                        c = ((xl + xr) / 2, (yl + yr) / 2)
+                        centres.append((fx(*c), fy(*c)))
+            ok = self._or_cells(o, exp, opt.get("cmap") or "Greys", fails, "map", log=opt.get("cmap_normalize") == "log",
+                                geometry="paths" if tr else "rects")
+            if opt["show_values"]:
+                if len(o["texts"]) != len(exp):
+                    fails.append("map_values: one value label per drawn cell expected")
+                elif ok:
+                    fmt = value_formatter(opt.get("value_format"))[1]
+                    for t, c, (_, v) in zip(o["texts"], centres, exp):
+                        if not (close(ff(t[0]), c[0], 1e-6) and close(ff(t[1]), c[1], 1e-6)):
+                            fails.append(f"map_values: value label at ({ff(t[0])}, {ff(t[1])}), the bin centre is {c}")
+                            break
+                        if not label_ok(t[2], fmt, v):
+                            fails.append(f"value_format: map label {t[2]!r} for the value {v!r} with value_format={opt.get('value_format')!r}")
+                            break
+            self._or_labels2(opt, o, fails, "map")
+        elif opt["plot"] == "image":
+            im = o["image"]
+            ext = [ff(x) for x in im["extent"]]
+            if ext != [xb[0][0], xb[-1][1], yb[0][0], yb[-1][1]]:
+                fails.append(f"image_extent: {ext}")
+            arr = np.array([[ff(v) for v in row] for row in im["array"]])
+            if arr.shape != data.T.shape or not np.allclose(arr, data.T[::-1, :]):
+                fails.append("image_pixels: the image is not the (transposed, y-flipped) table of values")
+            self._or_labels2(opt, o, fails, "image")
+        else:
+            hm = o["heatmap"]
+            z = np.array([[ff(v) for v in row] for row in hm["z"]])
+            # plotly draws z[j][i] at (x[i], y[j]); x/y with one more item than z are the cell edges
+            if z.shape != f.T.shape or not np.allclose(z, f.T):
+                fails.append("plotly_map: z[j][i] is not the frequency of bin (i, j)")
+            for nm, bb in (("x", xb), ("y", yb)):
+                got = [ff(v) for v in (hm[nm] or [])]
+                edges = [bb[0][0]] + [r for _, r in bb]
+                centres_ = [(l + r) / 2 for l, r in bb]
+                consecutive = all(bb[i][1] == bb[i + 1][0] for i in range(len(bb) - 1))
+                nearly = all(abs(bb[i][1] - bb[i + 1][0]) <= 1e-8 + 1e-5 * abs(bb[i + 1][0]) for i in range(len(bb) - 1))
+                want = edges if consecutive else centres_
+                if nearly and not consecutive and got in (edges, centres_):
+                    continue  # gaps below allclose tolerance: physt may treat the bins as consecutive
+                if got != want:
+                    fails.append(f"plotly_map: {nm} coordinates {got} are not the bin {'edges' if consecutive else 'centres'} {want}")
+
+    @staticmethod
+    def _or_labels2(opt, o, fails, what):
+        wx = opt.get("xlabel_arg") or o["axis_names"][0]
+        wy = opt.get("ylabel_arg") or o["axis_names"][1]
+        if o["xlabel"] != wx or o["ylabel"] != wy:
+            fails.append(f"{what}_labels: axis labels {o['xlabel']!r}, {o['ylabel']!r}, expected {wx!r}, {wy!r} (arguments, else the axis names {o['axis_names']})")
+        if "title" in o:
+            wt = opt.get("title_arg") or o["title_meta"] or ""
+            if o["title"] != wt:
+                fails.append(f"title: {what} title {o['title']!r}, expected {wt!r}")
+
+    def _or_polar(self, case, o, fails):
+        opt = case["opt"]
+        rb, pb, f = self._grid(o["snap"])
+        area = np.array([[0.5 * (r2 * r2 - r1 * r1) * (p2 - p1) for p1, p2 in pb] for r1, r2 in rb])
+        data = f / area if opt["density"] else f
+        cmap = opt.get("cmap") or "Greys"
+        exp = []
+        for i, (r1, r2) in enumerate(rb):
+            for j, (p1, p2) in enumerate(pb):
+                if opt["plot"] == "polar_map":
+                    # one wedge per bin: from phi1 over the bin's angle, from r1 over the bin's radial width
+                    if data[i, j] > 0 or opt["show_zero"]:
+                        exp.append(((p1, r1, p2 - p1, r2 - r1), float(data[i, j])))
+                elif data[i, j] != 0 or opt["show_zero"]:
+                    fx, fy = TRANSFORMS["polar_xy"]
+                    pts = [(r1, p1), (r2, p1), (r2, p2), (r1, p2), (r1, p1)]
+                    exp.append(([(float(fx(*q)), float(fy(*q))) for q in pts], float(data[i, j])))
+        if opt["plot"] == "polar_map":
+            if o.get("axes_class") and "Polar" not in o["axes_class"]:
+                fails.append(f"polar_axes: polar_map drew into {o['axes_class']}")
+            self._or_cells(o, exp, cmap, fails, "polar")
+        else:
+            self._or_cells(o, exp, cmap, fails, "polar_xy", geometry="paths")
+
+    def _or_mpl3d(self, case, o, fails):
+        opt = case["opt"]
+        p = opt["plot"]
+        xb, yb, f = self._grid(o["snap"])
+        hist = case.get("hist")
+        if hist == "spherical":
+            area = np.array([[(math.cos(a1) - math.cos(a2)) * (p2 - p1) for p1, p2 in yb] for a1, a2 in xb])
+        elif hist == "cylinder":
+            area = case["radius"] * np.outer([r - l for l, r in xb], [r - l for l, r in yb])
+        else:
+            area = np.outer([r - l for l, r in xb], [r - l for l, r in yb])
+        data = f / area if opt["density"] else f
+        if p == "bar3d":
+            self._or_labels2(opt, o, fails, "bar3d")
+            got = o.get("boxes")
+            if got is None:
+                return      # this matplotlib does not expose the faces
+            cells = [(xl, yl, xr, yr, float(data[i, j])) for i, (xl, xr) in enumerate(xb) for j, (yl, yr) in enumerate(yb)]
+            if len(got) != len(cells):
+                fails.append(f"bar3d_marks: {len(got)} boxes for {len(cells)} bins")
+                return
+            pos = None
+            for g, (xl, yl, xr, yr, v) in zip(got, cells):
+                g = [ff(x) for x in g]
+                if not (close(g[3] - g[0], xr - xl, 1e-6) and close(g[4] - g[1], yr - yl, 1e-6) and close(g[2], 0) and close(g[5], v, 1e-6)):
+                    fails.append(f"bar3d_marks: box {g} (min corner, max corner) for the bin [{xl}, {xr}] x [{yl}, {yr}] with value {v}: "
+                                 "footprint = bin widths and height = value expected")
+                    return
+                if pos is None and not (close(g[0], xl, 1e-6) and close(g[1], yl, 1e-6)):
+                    pos = f"bar3d_position: the box of the bin [{xl}, {xr}] x [{yl}, {yr}] covers [{g[0]}, {g[3]}] x [{g[1]}, {g[4]}]"
+            if pos:
+                fails.append(pos)
+            return
+        quads = o.get("quads")
+        if quads is None:
+            return
+        if p == "globe_map":
+            m = lambda a, b: (math.sin(a) * math.cos(b), math.sin(a) * math.sin(b), math.cos(a))
+        elif p == "cylinder_map":
+            r = case["radius"]
+            m = lambda a, z: (r * math.cos(a), r * math.sin(a), z)
+        else:
+            fx, fy = TRANSFORMS[opt["transform"]] if opt.get("transform") else (lambda x, y: x, lambda x, y: y)
+            fz = SURFACE_Z[opt["z"]] or (lambda x, y: 0.0)
+            m = lambda x, y: (fx(x, y), fy(x, y), fz(x, y))
+        exp = []
+        for i, (xl, xr) in enumerate(xb):
+            for j, (yl, yr) in enumerate(yb):
+                if opt["show_zero"] or data[i, j] != 0:
+                    exp.append(([m(*q) for q in [(xl, yl), (xl, yr), (xr, yr), (xr, yl)]], float(data[i, j])))
+        if len(quads) != len(exp):
+            fails.append(f"{p}_cells: {len(quads)} cells drawn for {len(exp)} bins to draw")
+            return
+        for q, (vs, v) in zip(quads, exp):
+            gv = [tuple(ff(x) for x in vert) for vert in q["verts"]]
+            if not same_points(gv, vs):
+                fails.append(f"{p}_cells: cell with corners {gv} for the bin with corners {vs}")
+                return
+        if not monotone([v for _, v in exp], [cmap_pos(q["color"], "Greys") for q in quads]):
+            fails.append(f"{p}_colour: cell colour is not monotone in the value")
+
+    def _or_ascii_map(self, case, o, fails):
+        import re
+        opt = case["opt"]
+        xb, yb, f = self._grid(o["snap"])
+        nx, ny = len(xb), len(yb)
+        rows = [[int(x) // 65793 for x in re.findall(r"\[(-?\d+)\]", l)] for l in o["stdout"] if l.startswith("|")]
+        if sum(len(r) for r in rows) != nx * ny:
+            fails.append(f"ascii_map_cells: {sum(len(r) for r in rows)} cells printed for {nx * ny} bins")
+            return
+        # the printed frame labels the first axis as horizontal (left / right arrows) and the second as vertical (up / down arrows)
+        good = len(rows) == ny and all(len(r) == nx for r in rows)
+        if good:
+            vals = [f[c, ny - 1 - r] for r in range(ny) for c in range(nx)]
+            lev = [rows[r][c] for r in range(ny) for c in range(nx)]
+            good = monotone(vals, lev)
+        if good:
+            return
+        swapped = len(rows) == nx and all(len(r) == ny for r in rows)
+        if swapped:
+            vals = [f[nx - 1 - r, c] for r in range(nx) for c in range(ny)]
+            lev = [rows[r][c] for r in range(nx) for c in range(ny)]
+            if monotone(vals, lev):
+                fails.append(f"ascii_map_position: the map prints {len(rows)} rows x {len(rows[0])} columns with bin (i, j) in row i, column j, but "
+                             f"labels the horizontal direction with the first axis ({nx} bins) and the vertical with the second ({ny} bins)")
+                return
+        fails.append("ascii_map_colour: the printed cells are not one per bin with a grey level monotone in the value")
+
+    def _or_pair(self, case, o, fails):
+        opt = case["opt"]
+        n1 = len(o["snaps"][0]["freq"])
+        o1 = {"density": opt["density"], "cumulative": False}
+        self._or_marks1("bar", o1, o, o["snaps"][0], fails, patches=o["patches"][:n1], sign=-1.0, what="first histogram (mirrored): ")
+        self._or_marks1("bar", o1, o, o["snaps"][1], fails, patches=o["patches"][n1:], what="second histogram: ")
+        if opt["title_arg"] and o["title"] != opt["title_arg"]:
+            fails.append(f"title: pair_bars title {o['title']!r}, expected the given {opt['title_arg']!r}")
+
+    def _or_collection(self, case, o, fails):
+        opt = case["opt"]
+        p = opt["plot"]
+        snaps = o.get("snaps") or [o["snap"]]
+        n = len(snaps[0]["freq"])
+        for k, s in enumerate(snaps):
+            what = f"member {k}: "
+            if p.startswith("plotly_"):
+                tr = o["traces"][k] if k < len(o["traces"]) else {"x": [], "y": []}
+                self._or_marks1("scatter", opt, o, s, fails, pts=list(zip(tr["x"], tr["y"])), what=what)
+            elif p == "bar":
+                self._or_marks1("bar", opt, o, s, fails, patches=o["patches"][k * n:(k + 1) * n], what=what)
+            elif p in ("line", "step"):
+                self._or_marks1(p, opt, o, s, fails, line=o["lines"][k] if k < len(o["lines"]) else [[], []], what=what)
+            else:
+                self._or_marks1("scatter", opt, o, s, fails, pts=o["offsets"][k] if k < len(o["offsets"]) else [], what=what)
+        if not p.startswith("plotly_"):
+            want = opt["title_arg"] or opt["title"]
+            if want and o["title"] != want:
+                fails.append(f"title: collection plot title {o['title']!r}, expected {want!r}")
+
+    def _or_backend(self, case, o, fails):
+        name = case["name"]
+        if o.get("after_set") != name:
+            fails.append(f"default_backend: get_default_backend() gives {o.get('after_set')!r} after set_default_backend({name!r})")
+        mod = o.get("ret_module")
+        used = "ascii" if mod is None and o.get("stdout_lines") else (mod or "").split(".")[0]
+        if used != name:
+            fails.append(f"default_backend: a plot without a backend argument was drawn by {used!r} while the default is {name!r}")
+        for bad, (res, cur) in o["bad_set"].items():
+            if res != "REFUSED":
+                fails.append(f"accepted_invalid: set_default_backend({bad!r}) accepted")
+            elif cur != name:
+                fails.append(f"default_backend: the refused set_default_backend({bad!r}) changed the default to {cur!r}")
+        if not o["restored"]:
+            fails.append(f"default_backend: set_default_backend({o['prev']!r}) did not bring the previous default back")
+        gapped = any(a[1] != b[0] for a, b in zip(o["snap"]["bins"], o["snap"]["bins"][1:]))
+        if "dir_pick" in o and o["dir_pick"][1] != "accepted" and not (o["dir_pick"][0] == "step" and gapped):
+            fails.append(f"plot_proxy: dir(h.plot) lists {o['dir_pick'][0]!r} for a 1-D histogram, calling it gives {o['dir_pick'][1]}")
+
+    def _or_data(self, case, o, fails):
+        fl_ = case["flags"]
+        s = o["snap"]
+        if case["dim"] == 1:
+            bins, f, e2, sizes, centres, data = self._data1(s, fl_["density"], fl_["cumulative"])
+            shape = [len(f)]
+            err = [math.sqrt(x) / (sz if fl_["density"] else 1) for x, sz in zip(e2, sizes)]
+        else:
+            xb, yb, f2 = self._grid(s)
+            area = np.outer([r - l for l, r in xb], [r - l for l, r in yb])
+            e2 = np.array([ff(x) for x in s["err2"]]).reshape(f2.shape)
+            data = None if fl_["cumulative"] else list((f2 / area if fl_["density"] else f2).ravel())
+            err = list((np.sqrt(e2) / (area if fl_["density"] else 1)).ravel())
+            shape = [f2.size] if fl_["flatten"] else list(f2.shape)
+        d = o["data"]
+        if "refused" in d:
+            if data is not None:
+                fails.append(f"get_data: refused with {d['refused']} for {fl_}")
+        elif data is not None:
+            got = [ff(x) for x in d["values"]]
+            if d["shape"] != shape or len(got) != len(data) or any(not close(a, b) for a, b in zip(got, data)):
+                fails.append(f"get_data: {got[:6]} (shape {d['shape']}) for {fl_}, expected {[float(x) for x in data[:6]]} (shape {shape})")
+        e = o["err"]
+        if fl_["cumulative"]:
+            if "refused" not in e:
+                fails.append("errors_cumulative: get_err_data(cumulative=True) is not refused")
+        elif "refused" in e:
+            fails.append(f"get_err_data: refused with {e['refused']} for {fl_}")
+        else:
+            got = [ff(x) for x in e["values"]]
+            if e["shape"] != shape or len(got) != len(err) or any(not close(a, b, 1e-6) for a, b in zip(got, err)):
+                fails.append(f"get_err_data: {got[:6]} for {fl_}, expected sqrt(errors2){'/size' if fl_['density'] else ''} = {[float(x) for x in err[:6]]}")
+        vf = case["vf"]
+        samples = (0, 3, 1.5, 0.125, 1234.5678)
+        if vf and vf[0] in "sc":
+            if isinstance(o["vf"], dict):
+                fails.append(f"value_format: get_value_format refused {vf!r} with {o['vf']['refused']}")
+            else:
+                fmt = value_formatter(vf)[1]
+                if o["vf"] != [fmt(v) for v in samples]:
+                    fails.append(f"value_format: {vf!r} formats {samples} as {o['vf']}, expected {[fmt(v) for v in samples]}")
+        elif not vf and (isinstance(o["vf"], dict) or any(not label_ok(t, None, v) for t, v in zip(o["vf"], samples))):
+            fails.append(f"value_format: the default format shows {samples} as {o['vf']}")
+
     def oracle(self, case, io):
         o = io["outs"]
+        kind = case["kind"]
+        if kind == "ticks":
+            return self._or_ticks(case, o)
         fails = []
-        if case["kind"] == "ticks":
-            ticks = [float(Fraction(t)) for t in o["ticks"]]
-            if len(o["labels"]) != len(ticks):
-                fails.append(f"tick_labels: {len(ticks)} ticks but {len(o['labels'])} labels")
-            lo, hi = case["lo"], case["hi"]
-            if case["level"] == "unit":
-                w = case["unit"][1] * {"sec": 1, "min": 60, "hour": 3600}[case["unit"][0]]
-                exp = [k * w for k in range(math.ceil(lo / w - 1e-12) - 1, math.floor(hi / w + 1e-12) + 2) if lo <= k * w <= hi]
-                if any(abs(a - b) > 1e-9 for a, b in zip(ticks, exp)) or len(ticks) != len(exp):
-                    fails.append(f"ticks: ticks {ticks} for [{lo}, {hi}] and unit {w}; the multiples inside the range are {exp}")
-            elif case["level"] == "edge":
-                if o["ticks"] != o["edges"]:
-                    fails.append("ticks_edges: edge-level ticks are not the bin edges")
-            else:
-                e = [float(Fraction(x)) for x in o["edges"]]
-                if any(abs(a - b) > 1e-9 for a, b in zip(ticks, [(e[i] + e[i + 1]) / 2 for i in range(len(e) - 1)])):
-                    fails.append("ticks_centres: centre-level ticks are not the bin centres")
-            return fails
-        opt = case["opt"]
         if not o["unchanged"]:
             fails.append(f"histogram_modified: plotting changed the histogram: {o.get('changed_fields')}")
+        dim = 2 if kind in ("mpl2", "refuse2", "ascii_map", "polar", "mpl3d") or case.get("dim") == 2 else 1
         for name, r in o["refused"].items():
             if r != "REFUSED":
-                fails.append(f"accepted_invalid: plot kind / backend '{name}' accepted for a {'2' if case['kind'] == 'mpl2' else '1'}-D histogram")
+                if name.startswith("errors_cumulative"):
+                    fails.append(f"errors_cumulative: plot('{name[18:]}', errors=True, cumulative=True) is not refused")
+                elif name == "no_kind_for_dim":
+                    fails.append("accepted_invalid: plot() of a 3-D histogram accepted although the backend has no kind for 3 dimensions")
+                else:
+                    fails.append(f"accepted_invalid: plot kind / backend '{name}' accepted for a {dim}-D histogram")
         if "plot_error" in o:
-            if not (case["kind"] == "mpl2" and opt["plot"] == "image"):
+            if not (kind == "mpl2" and case["opt"]["plot"] == "image"):
                 fails.append("plot_raises: " + o["plot_error"])
             return fails
-        s = o["snap"]
-        if case["kind"] in ("mpl1", "plotly1", "ascii"):
-            bins = [(float(Fraction(l)), float(Fraction(r))) for l, r in s["bins"]]
-            f = [float(Fraction(x)) for x in s["freq"]]
-            e2 = [float(Fraction(x)) for x in s["err2"]]
-            sizes = [r - l for l, r in bins]
-            if opt["cumulative"]:
-                data = list(np.cumsum(f))
-            elif opt["density"]:
-                data = [a / b for a, b in zip(f, sizes)]
-            else:
-                data = f
-            centres = [(l + r) / 2 for l, r in bins]
-        if case["kind"] == "mpl1":
-            p = opt["plot"]
-            if p == "bar":
-                got = [[float(Fraction(x)) for x in r] for r in o["patches"]]
-                exp = [[l, r - l, d] for (l, r), d in zip(bins, data)]
-                if len(got) != len(exp) or any(not all(close(a, b) for a, b in zip(x, y)) for x, y in zip(got, exp)):
-                    fails.append(f"bar_marks: bars (left, width, height) {got[:3]} ... expected {exp[:3]}")
-            elif p == "step":
-                got = o["lines"][0] if o["lines"] else [[], []]
-                ex = [bins[0][0]] + [r for _, r in bins]
-                ey = [data[0]] + list(data)
-                if [float(Fraction(x)) for x in got[0]] != ex or any(not close(float(Fraction(a)), b) for a, b in zip(got[1], ey)):
-                    fails.append("step_marks: the step line does not follow the edges / values")
-            elif p in ("line", "scatter"):
-                if p == "line":
-                    got = o["lines"][0] if o["lines"] else [[], []]
-                    gx, gy = [float(Fraction(x)) for x in got[0]], [float(Fraction(x)) for x in got[1]]
-                else:
-                    pts = o["offsets"][-1] if o["offsets"] else []
-                    gx, gy = [float(Fraction(a)) for a, _ in pts], [float(Fraction(b)) for _, b in pts]
-                if len(gx) != len(centres) or any(not close(a, b) for a, b in zip(gx, centres)) or any(not close(a, b) for a, b in zip(gy, data)):
-                    fails.append(f"{p}_marks: points are not (bin centre, value)")
-            elif p == "fill":
-                if not o["polys"]:
-                    fails.append("fill_marks: no filled polygon")
-                else:
-                    verts = {(round(float(Fraction(a)), 9), round(float(Fraction(b)), 9)) for a, b in o["polys"][0]}
-                    if any((round(c, 9), round(d, 9)) not in verts for c, d in zip(centres, data)):
-                        fails.append("fill_marks: the filled area does not pass through (bin centre, value)")
-            if opt["errors"] and p in ("bar", "line", "scatter") and not opt["cumulative"]:
-                err = [math.sqrt(x) / (sz if opt["density"] else 1) for x, sz in zip(e2, sizes)]
-                segs = [[(float(Fraction(a)), float(Fraction(b))) for a, b in sg] for sg in o["segments"] if len(sg) == 2]
-                vert = [sg for sg in segs if close(sg[0][0], sg[1][0])]
-                for c, dval, er in zip(centres, data, err):
-                    hit = [sg for sg in vert if close(sg[0][0], c, 1e-7)]
-                    if not hit:
-                        if er > 0:
-                            fails.append(f"error_bars: no error bar at bin centre {c}")
-                            break
-                        continue
-                    lo_, hi_ = sorted([hit[0][0][1], hit[0][1][1]])
-                    etol = 1e-6 * max(abs(dval), er, 1e-12)  # float16/float32 histograms carry errors in their own precision
-                    if not (abs(lo_ - (dval - er)) <= etol and abs(hi_ - (dval + er)) <= etol):
-                        fails.append(f"error_bars: error bar at {c} spans [{lo_}, {hi_}], expected value ± sqrt(errors2){'/size' if opt['density'] else ''} = [{dval - er}, {dval + er}]")
-                        break
-            want_title = opt["title_arg"] or o["title_meta"] or ""
-            if o["title"] != want_title:
-                fails.append(f"title: plot title {o['title']!r}, expected {want_title!r}")
-            want_x = opt["xlabel_arg"] or o["axis_names"][0]
-            if o["xlabel"] != want_x:
-                fails.append(f"xlabel: {o['xlabel']!r}, expected {want_x!r}")
-            if opt["show_values"] and p != "fill":
-                tx = [(float(Fraction(t[0])), float(Fraction(t[1]))) for t in o["texts"]]
-                if len(tx) != len(centres) or any(not (close(a[0], c) and close(a[1], dv)) for a, c, dv in zip(tx, centres, data)):
-                    fails.append("value_labels: value labels are not at (bin centre, value)")
-        elif case["kind"] == "plotly1":
+        opt = case.get("opt")
+        if kind == "mpl1":
+            self._or_mpl1(case, o, fails)
+        elif kind == "plotly1":
+            p = o.get("default_kind", opt["plot"])
+            bins, f, e2, sizes, centres, data = self._data1(o["snap"], opt["density"], opt["cumulative"])
             tr = o["trace"]
-            gx, gy = [float(Fraction(x)) for x in tr["x"]], [float(Fraction(y)) for y in tr["y"]]
+            gx, gy = [ff(x) for x in tr["x"]], [ff(y) for y in tr["y"]]
             if len(gx) != len(centres) or any(not close(a, b) for a, b in zip(gx, centres)) or any(not close(a, b) for a, b in zip(gy, data)):
-                fails.append("plotly_marks: trace is not (bin centre, value)")
-            if opt["plot"] == "bar" and (tr["width"] is None or any(not close(float(Fraction(a)), b) for a, b in zip(tr["width"], sizes))):
+                fails.append(f"plotly_marks: trace is not (bin centre, value): y {gy[:4]} expected {data[:4]}")
+            if p == "bar" and (tr["width"] is None or any(not close(ff(a), b) for a, b in zip(tr["width"], sizes))):
                 fails.append("plotly_widths: bar widths are not the bin widths")
-        elif case["kind"] == "ascii":
+            if opt.get("ticks"):
+                tv = [ff(x) for x in (o.get("tickvals") or [])]
+                want = centres if opt["ticks"] == "center" else [l for l, _ in bins]
+                edges = [l for l, _ in bins] + [r for _, r in bins]
+                if opt["ticks"] == "center" and (len(tv) != len(want) or any(not close(a, b) for a, b in zip(tv, want))):
+                    fails.append(f"ticks_centres: plotly tick values {tv[:5]}, the bin centres are {want[:5]}")
+                if opt["ticks"] == "edge" and (any(not any(close(l, x) for x in tv) for l in want) or any(not any(close(x, e) for e in edges) for x in tv)):
+                    fails.append(f"ticks_edges: plotly tick values {tv[:5]}, the bin edges are {sorted(set(edges))[:6]}")
+            th = opt.get("tick_handler")
+            if th:
+                tv = [ff(x) for x in (o.get("tickvals") or [])]
+                w = th["unit"][1] * SECONDS[th["unit"][0]]
+                exp = multiples_inside(bins[0][0], bins[-1][1], w)
+                if len(tv) != len(exp) or any(abs(a - b) > 1e-9 for a, b in zip(tv, exp)):
+                    fails.append(f"ticks: plotly tick values {tv[:8]} for bins over [{bins[0][0]}, {bins[-1][1]}] and a tick handler of unit {w} s; the multiples inside are {exp[:8]}")
+                if len(o.get("ticktext") or []) != len(tv):
+                    fails.append(f"tick_labels: {len(tv)} plotly ticks but {len(o.get('ticktext') or [])} labels")
+        elif kind == "ascii":
+            f = [ff(x) for x in o["snap"]["freq"]]
             tot = sum(f)
             exp = [int(np.round(x / tot * opt["width"])) for x in f]
             lines = o["stdout"]
@@ -385,81 +1650,61 @@ class C20:
                 vals = [l.split(" ")[-1] for l in lines]
                 if any(not close(float(v), x) for v, x in zip(vals, f)):
                     fails.append(f"ascii_values: printed values {vals} differ from the frequencies {f}")
-        elif case["kind"] == "mpl2":
-            xb = [(float(Fraction(l)), float(Fraction(r))) for l, r in s["bins"][0]]
-            yb = [(float(Fraction(l)), float(Fraction(r))) for l, r in s["bins"][1]]
-            f = np.array([float(Fraction(x)) for x in s["freq"]]).reshape(len(xb), len(yb))
-            if opt["plot"] == "map":
-                data = f / np.outer([r - l for l, r in xb], [r - l for l, r in yb]) if opt["density"] else f
-                exp = []
-                for i, (xl, xr) in enumerate(xb):
-                    for j, (yl, yr) in enumerate(yb):
-                        if data[i, j] != 0 or opt["show_zero"]:
-                            exp.append((xl, yl, xr - xl, yr - yl, data[i, j]))
-                got = o["rects"]
-                if len(got) != len(exp):
-                    fails.append(f"map_cells: {len(got)} rectangles for {len(exp)} cells to draw")
-                else:
-                    for g, e in zip(got, exp):
-                        if not all(close(float(Fraction(g[i])), e[i]) for i in range(4)):
-                            fails.append(f"map_cells: rectangle {[float(Fraction(x)) for x in g[:4]]} for the cell at {e[:4]}")
-                            break
-                    # colour monotone in the value (default colormap is sequential): compare luminance order
-                    lum = [sum(g[4][:3]) for g in got]
-                    vals = [e[4] for e in exp]
-                    order = sorted(range(len(vals)), key=lambda i: vals[i])
-                    diffs = [lum[order[i + 1]] - lum[order[i]] for i in range(len(order) - 1) if vals[order[i + 1]] > vals[order[i]]]
-                    if diffs and not (all(x <= 1e-9 for x in diffs) or all(x >= -1e-9 for x in diffs)):
-                        fails.append("map_colour: cell colour is not monotone in the value")
-                if opt["show_values"]:
-                    if len(o["texts"]) != len(exp):
-                        fails.append("map_values: one value label per drawn cell expected")
-                if o["xlabel"] != o["axis_names"][0] or o["ylabel"] != o["axis_names"][1]:
-                    fails.append(f"map_labels: axis labels {o['xlabel']!r}, {o['ylabel']!r} differ from the axis names {o['axis_names']}")
-            elif opt["plot"] == "image":
-                im = o["image"]
-                ext = [float(Fraction(x)) for x in im["extent"]]
-                if ext != [xb[0][0], xb[-1][1], yb[0][0], yb[-1][1]]:
-                    fails.append(f"image_extent: {ext}")
-                data = f / np.outer([r - l for l, r in xb], [r - l for l, r in yb]) if opt["density"] else f
-                arr = np.array([[float(Fraction(v)) for v in row] for row in im["array"]])
-                if arr.shape != data.T.shape or not np.allclose(arr, data.T[::-1, :]):
-                    fails.append("image_pixels: the image is not the (transposed, y-flipped) table of values")
-            else:
-                hm = o["heatmap"]
-                z = np.array([[float(Fraction(v)) for v in row] for row in hm["z"]])
-                # plotly draws z[j][i] at (x[i], y[j]); x/y with one more item than z are the cell edges
-                if z.shape != f.T.shape or not np.allclose(z, f.T):
-                    fails.append("plotly_map: z[j][i] is not the frequency of bin (i, j)")
-                for nm, bb in (("x", xb), ("y", yb)):
-                    got = [float(Fraction(v)) for v in (hm[nm] or [])]
-                    edges = [bb[0][0]] + [r for _, r in bb]
-                    centres_ = [(l + r) / 2 for l, r in bb]
-                    consecutive = all(bb[i][1] == bb[i + 1][0] for i in range(len(bb) - 1))
-                    nearly = all(abs(bb[i][1] - bb[i + 1][0]) <= 1e-8 + 1e-5 * abs(bb[i + 1][0]) for i in range(len(bb) - 1))
-                    want = edges if consecutive else centres_
-                    if nearly and not consecutive and got in (edges, centres_):
-                        continue  # gaps below allclose tolerance: physt may treat the bins as consecutive
-                    if got != want:
-                        fails.append(f"plotly_map: {nm} coordinates {got} are not the bin {'edges' if consecutive else 'centres'} {want}")
-        return fails[:6]
+        elif kind == "mpl2":
+            self._or_mpl2(case, o, fails)
+        elif kind == "ascii_map":
+            self._or_ascii_map(case, o, fails)
+        elif kind == "polar":
+            self._or_polar(case, o, fails)
+        elif kind == "mpl3d":
+            self._or_mpl3d(case, o, fails)
+        elif kind == "pair":
+            self._or_pair(case, o, fails)
+        elif kind == "collection":
+            self._or_collection(case, o, fails)
+        elif kind == "backend":
+            self._or_backend(case, o, fails)
+        elif kind == "data":
+            self._or_data(case, o, fails)
+        # failures with the signature of a recorded open finding go last: the first failure names the case
+        known = [x for x in fails if x.split(":")[0] in self.OPEN_SIGNATURES]
+        return ([x for x in fails if x not in known] + known)[:6]
+
+    OPEN_SIGNATURES = {"ascii_map_position": "ascii_map", "bar3d_position": "bar3d"}
 
     def nontrivial(self, case, io):
         if case["kind"] == "ticks":
-            return len(io["outs"]["ticks"]) > 0
+            return len(io["outs"]["ticks"]) > 0 or "refused" in io["outs"]
         return any(x not in ("0", None) for x in io["outs"]["snap"]["freq"])
 
     def tags(self, case, io):
-        return list(case["tags"])
+        t = list(case["tags"])
+        o = io["outs"]
+        if case["kind"] == "ticks" and "refused" in o:
+            t.append("level_refused:" + o["refused"])
+        if "default_kind" in o:
+            t.append("default_kind:" + str(o["default_kind"]))
+        return t
 
     def matches_known(self, finding, case):
-        return False
+        plot = self.OPEN_SIGNATURES.get(finding.get("signature"))
+        return plot is not None and (case.get("opt") or {}).get("plot") == plot
 
     def neighbours(self, case):
         return []
 
     def shrink_candidates(self, case):
-        return []
+        """switch the options off one at a time (the histogram is kept)"""
+        out = []
+        opt = case.get("opt") or {}
+        for k, v in opt.items():
+            if k in ("plot", "bad", "call", "names", "width", "z") or not v:
+                continue
+            c = copy.deepcopy(case)
+            c["opt"][k] = False if v is True else None
+            c["tags"] = [t for t in c["tags"] if not t.startswith("opt:" + k)]
+            out.append(c)
+        return out
 
 
 PROP = C20()
